@@ -215,6 +215,18 @@ let rec fold_right f a0 = function
 | [] -> a0
 | b :: t -> f b (fold_right f a0 t)
 
+(** val existsb : ('a1 -> bool) -> 'a1 list -> bool **)
+
+let rec existsb f = function
+| [] -> false
+| a :: l0 -> (||) (f a) (existsb f l0)
+
+(** val forallb : ('a1 -> bool) -> 'a1 list -> bool **)
+
+let rec forallb f = function
+| [] -> true
+| a :: l0 -> (&&) (f a) (forallb f l0)
+
 (** val filter : ('a1 -> bool) -> 'a1 list -> 'a1 list **)
 
 let rec filter f = function
@@ -823,6 +835,18 @@ let rec append s1 s2 =
 let rec length0 = function
 | EmptyString -> O
 | String (_, s') -> S (length0 s')
+
+(** val string_of_list_ascii : ascii list -> string **)
+
+let rec string_of_list_ascii = function
+| [] -> EmptyString
+| ch :: s0 -> String (ch, (string_of_list_ascii s0))
+
+(** val list_ascii_of_string : string -> ascii list **)
+
+let rec list_ascii_of_string = function
+| EmptyString -> []
+| String (ch, s0) -> ch :: (list_ascii_of_string s0)
 
 (** val uint_of_char : ascii -> uint option -> uint option **)
 
@@ -4935,6 +4959,1719 @@ let rec deep_merge f ys =
                  false) :: es)))
            in go slots) (fun es -> SOk (VMap es)))
 
+type comp =
+| CRoot
+| CCur
+| CParent
+| CNormal of string
+
+(** val comp_eqb : comp -> comp -> bool **)
+
+let comp_eqb a b =
+  match a with
+  | CRoot -> (match b with
+              | CRoot -> true
+              | _ -> false)
+  | CCur -> (match b with
+             | CCur -> true
+             | _ -> false)
+  | CParent -> (match b with
+                | CParent -> true
+                | _ -> false)
+  | CNormal x -> (match b with
+                  | CNormal y -> eqb1 x y
+                  | _ -> false)
+
+(** val is_abs : string -> bool **)
+
+let is_abs = function
+| EmptyString -> false
+| String (a, _) ->
+  let Ascii (b, b0, b1, b2, b3, b4, b5, b6) = a in
+  if b
+  then if b0
+       then if b1
+            then if b2
+                 then if b3
+                      then false
+                      else if b4
+                           then if b5
+                                then false
+                                else if b6 then false else true
+                           else false
+                 else false
+            else false
+       else false
+  else false
+
+(** val components : string -> comp list **)
+
+let components s =
+  let segs =
+    split_on (Ascii (true, true, true, true, false, true, false, false)) s
+  in
+  let body =
+    let rec go l first =
+      match l with
+      | [] -> []
+      | x :: l' ->
+        if eqb1 x EmptyString
+        then go l' first
+        else if eqb1 x (String ((Ascii (false, true, true, true, false, true,
+                  false, false)), EmptyString))
+             then if first then CCur :: (go l' false) else go l' false
+             else if eqb1 x (String ((Ascii (false, true, true, true, false,
+                       true, false, false)), (String ((Ascii (false, true,
+                       true, true, false, true, false, false)),
+                       EmptyString))))
+                  then CParent :: (go l' false)
+                  else (CNormal x) :: (go l' false)
+    in go
+  in
+  if is_abs s then CRoot :: (body segs false) else body segs true
+
+(** val ends_with_slash : string -> bool **)
+
+let rec ends_with_slash = function
+| EmptyString -> false
+| String (c, s') ->
+  (match s' with
+   | EmptyString ->
+     eqb0 c (Ascii (true, true, true, true, false, true, false, false))
+   | String (_, _) -> ends_with_slash s')
+
+(** val path_push : string -> string -> string **)
+
+let path_push base p =
+  if is_abs p
+  then p
+  else if eqb1 base EmptyString
+       then p
+       else if ends_with_slash base
+            then append base p
+            else append base
+                   (append (String ((Ascii (true, true, true, true, false,
+                     true, false, false)), EmptyString)) p)
+
+(** val cpop : comp list -> comp list **)
+
+let cpop l =
+  match rev0 l with
+  | [] -> []
+  | c :: r -> (match c with
+               | CRoot -> l
+               | _ -> rev0 r)
+
+(** val comp_text : comp -> string **)
+
+let comp_text = function
+| CRoot ->
+  String ((Ascii (true, true, true, true, false, true, false, false)),
+    EmptyString)
+| CCur ->
+  String ((Ascii (false, true, true, true, false, true, false, false)),
+    EmptyString)
+| CParent ->
+  String ((Ascii (false, true, true, true, false, true, false, false)),
+    (String ((Ascii (false, true, true, true, false, true, false, false)),
+    EmptyString)))
+| CNormal s -> s
+
+(** val print_comps : comp list -> string **)
+
+let print_comps l = match l with
+| [] ->
+  join (String ((Ascii (true, true, true, true, false, true, false, false)),
+    EmptyString)) (map comp_text l)
+| c :: rest ->
+  (match c with
+   | CRoot ->
+     append (String ((Ascii (true, true, true, true, false, true, false,
+       false)), EmptyString))
+       (join (String ((Ascii (true, true, true, true, false, true, false,
+         false)), EmptyString)) (map comp_text rest))
+   | _ ->
+     join (String ((Ascii (true, true, true, true, false, true, false,
+       false)), EmptyString)) (map comp_text l))
+
+(** val to_lexical_normal : string -> bool -> string **)
+
+let to_lexical_normal s preserve =
+  let comps = components s in
+  print_comps
+    (let rec go l i norm =
+       match l with
+       | [] -> norm
+       | c :: l' ->
+         (match c with
+          | CRoot -> go l' (S i) (app norm (c :: []))
+          | CCur ->
+            go l' (S i)
+              (if (&&) (Nat.eqb i O) preserve
+               then app norm (CCur :: [])
+               else norm)
+          | CParent -> go l' (S i) (cpop norm)
+          | CNormal _ -> go l' (S i) (app norm (c :: [])))
+     in go comps O [])
+
+(** val comps_prefix : comp list -> comp list -> bool **)
+
+let rec comps_prefix a b =
+  match a with
+  | [] -> true
+  | x :: a' ->
+    (match b with
+     | [] -> false
+     | y :: b' -> (&&) (comp_eqb x y) (comps_prefix a' b'))
+
+(** val strip_trailing_slashes : nat -> string -> string **)
+
+let rec strip_trailing_slashes fuel s =
+  match fuel with
+  | O -> s
+  | S f ->
+    if eqb1 s (String ((Ascii (true, true, true, true, false, true, false,
+         false)), EmptyString))
+    then s
+    else (match rev0 (list_ascii_of_string s) with
+          | [] -> s
+          | c :: r ->
+            if eqb0 c (Ascii (true, true, true, true, false, true, false,
+                 false))
+            then strip_trailing_slashes f (string_of_list_ascii (rev0 r))
+            else s)
+
+(** val last_is_normal : string -> bool **)
+
+let last_is_normal s =
+  match rev0 (components s) with
+  | [] -> false
+  | c :: _ -> (match c with
+               | CNormal _ -> true
+               | _ -> false)
+
+(** val drop_last_segment : ascii list -> ascii list **)
+
+let rec drop_last_segment l = match l with
+| [] -> []
+| c :: l' ->
+  if eqb0 c (Ascii (true, true, true, true, false, true, false, false))
+  then l
+  else drop_last_segment l'
+
+(** val parent_text : string -> string **)
+
+let parent_text s =
+  let s1 = strip_trailing_slashes (length0 s) s in
+  let cut =
+    string_of_list_ascii
+      (rev0 (drop_last_segment (rev0 (list_ascii_of_string s1))))
+  in
+  strip_trailing_slashes (length0 cut) cut
+
+(** val with_file_name : string -> string -> string **)
+
+let with_file_name path name =
+  if last_is_normal path
+  then path_push (parent_text path) name
+  else path_push path name
+
+type config = { cf_inv : string; cf_nodes : string; cf_classes : string;
+                cf_ignore : bool; cf_compose : bool;
+                cf_reported : string list; cf_compiled : string list;
+                cf_dots : bool }
+
+(** val opt_default : string option -> string -> string **)
+
+let opt_default o d =
+  match o with
+  | Some s -> s
+  | None -> d
+
+(** val config_new :
+    string option -> string option -> string option -> bool option -> config
+    res **)
+
+let config_new inv nodes classes ign =
+  match inv with
+  | Some _ ->
+    (match inv with
+     | Some _ ->
+       let i =
+         opt_default inv (String ((Ascii (false, true, true, true, false,
+           true, false, false)), EmptyString))
+       in
+       let npath =
+         path_push i
+           (opt_default nodes (String ((Ascii (false, true, true, true,
+             false, true, true, false)), (String ((Ascii (true, true, true,
+             true, false, true, true, false)), (String ((Ascii (false, false,
+             true, false, false, true, true, false)), (String ((Ascii (true,
+             false, true, false, false, true, true, false)), (String ((Ascii
+             (true, true, false, false, true, true, true, false)),
+             EmptyString)))))))))))
+       in
+       let cpath =
+         path_push i
+           (opt_default classes (String ((Ascii (true, true, false, false,
+             false, true, true, false)), (String ((Ascii (false, false, true,
+             true, false, true, true, false)), (String ((Ascii (true, false,
+             false, false, false, true, true, false)), (String ((Ascii (true,
+             true, false, false, true, true, true, false)), (String ((Ascii
+             (true, true, false, false, true, true, true, false)), (String
+             ((Ascii (true, false, true, false, false, true, true, false)),
+             (String ((Ascii (true, true, false, false, true, true, true,
+             false)), EmptyString)))))))))))))))
+       in
+       let nc = components npath in
+       let cc = components cpath in
+       if (||) (comps_prefix nc cc) (comps_prefix cc nc)
+       then Err (EConfig (String ((Ascii (false, true, true, true, false,
+              false, true, false)), (String ((Ascii (true, true, true, true,
+              false, true, true, false)), (String ((Ascii (false, false,
+              true, false, false, true, true, false)), (String ((Ascii (true,
+              false, true, false, false, true, true, false)), (String ((Ascii
+              (true, true, false, false, true, true, true, false)), (String
+              ((Ascii (false, false, false, false, false, true, false,
+              false)), (String ((Ascii (true, false, false, false, false,
+              true, true, false)), (String ((Ascii (false, true, true, true,
+              false, true, true, false)), (String ((Ascii (false, false,
+              true, false, false, true, true, false)), (String ((Ascii
+              (false, false, false, false, false, true, false, false)),
+              (String ((Ascii (true, true, false, false, false, true, true,
+              false)), (String ((Ascii (false, false, true, true, false,
+              true, true, false)), (String ((Ascii (true, false, false,
+              false, false, true, true, false)), (String ((Ascii (true, true,
+              false, false, true, true, true, false)), (String ((Ascii (true,
+              true, false, false, true, true, true, false)), (String ((Ascii
+              (true, false, true, false, false, true, true, false)), (String
+              ((Ascii (true, true, false, false, true, true, true, false)),
+              (String ((Ascii (false, false, false, false, false, true,
+              false, false)), (String ((Ascii (false, false, false, false,
+              true, true, true, false)), (String ((Ascii (true, false, false,
+              false, false, true, true, false)), (String ((Ascii (false,
+              false, true, false, true, true, true, false)), (String ((Ascii
+              (false, false, false, true, false, true, true, false)), (String
+              ((Ascii (false, false, false, false, false, true, false,
+              false)), (String ((Ascii (true, false, true, true, false, true,
+              true, false)), (String ((Ascii (true, false, true, false, true,
+              true, true, false)), (String ((Ascii (true, true, false, false,
+              true, true, true, false)), (String ((Ascii (false, false, true,
+              false, true, true, true, false)), (String ((Ascii (false,
+              false, false, false, false, true, false, false)), (String
+              ((Ascii (false, true, false, false, false, true, true, false)),
+              (String ((Ascii (true, false, true, false, false, true, true,
+              false)), (String ((Ascii (false, false, false, false, false,
+              true, false, false)), (String ((Ascii (false, true, true, true,
+              false, true, true, false)), (String ((Ascii (true, true, true,
+              true, false, true, true, false)), (String ((Ascii (false, true,
+              true, true, false, true, true, false)), (String ((Ascii (true,
+              false, true, true, false, true, false, false)), (String ((Ascii
+              (true, true, true, true, false, true, true, false)), (String
+              ((Ascii (false, true, true, false, true, true, true, false)),
+              (String ((Ascii (true, false, true, false, false, true, true,
+              false)), (String ((Ascii (false, true, false, false, true,
+              true, true, false)), (String ((Ascii (false, false, true, true,
+              false, true, true, false)), (String ((Ascii (true, false,
+              false, false, false, true, true, false)), (String ((Ascii
+              (false, false, false, false, true, true, true, false)), (String
+              ((Ascii (false, false, false, false, true, true, true, false)),
+              (String ((Ascii (true, false, false, true, false, true, true,
+              false)), (String ((Ascii (false, true, true, true, false, true,
+              true, false)), (String ((Ascii (true, true, true, false, false,
+              true, true, false)), (String ((Ascii (false, true, true, true,
+              false, true, false, false)),
+              EmptyString)))))))))))))))))))))))))))))))))))))))))))))))))))))))))))))))))))))))))))))))))))))))))))))))
+       else Ok { cf_inv = i; cf_nodes = (to_lexical_normal npath true);
+              cf_classes = (to_lexical_normal cpath true); cf_ignore =
+              (match ign with
+               | Some b -> b
+               | None -> false); cf_compose = false; cf_reported = ((String
+              ((Ascii (false, true, true, true, false, true, false, false)),
+              (String ((Ascii (false, true, false, true, false, true, false,
+              false)), EmptyString)))) :: []); cf_compiled = ((String ((Ascii
+              (false, true, true, true, false, true, false, false)), (String
+              ((Ascii (false, true, false, true, false, true, false, false)),
+              EmptyString)))) :: []); cf_dots = false }
+     | None ->
+       (match classes with
+        | Some _ ->
+          let i =
+            opt_default inv (String ((Ascii (false, true, true, true, false,
+              true, false, false)), EmptyString))
+          in
+          let npath =
+            path_push i
+              (opt_default nodes (String ((Ascii (false, true, true, true,
+                false, true, true, false)), (String ((Ascii (true, true,
+                true, true, false, true, true, false)), (String ((Ascii
+                (false, false, true, false, false, true, true, false)),
+                (String ((Ascii (true, false, true, false, false, true, true,
+                false)), (String ((Ascii (true, true, false, false, true,
+                true, true, false)), EmptyString)))))))))))
+          in
+          let cpath =
+            path_push i
+              (opt_default classes (String ((Ascii (true, true, false, false,
+                false, true, true, false)), (String ((Ascii (false, false,
+                true, true, false, true, true, false)), (String ((Ascii
+                (true, false, false, false, false, true, true, false)),
+                (String ((Ascii (true, true, false, false, true, true, true,
+                false)), (String ((Ascii (true, true, false, false, true,
+                true, true, false)), (String ((Ascii (true, false, true,
+                false, false, true, true, false)), (String ((Ascii (true,
+                true, false, false, true, true, true, false)),
+                EmptyString)))))))))))))))
+          in
+          let nc = components npath in
+          let cc = components cpath in
+          if (||) (comps_prefix nc cc) (comps_prefix cc nc)
+          then Err (EConfig (String ((Ascii (false, true, true, true, false,
+                 false, true, false)), (String ((Ascii (true, true, true,
+                 true, false, true, true, false)), (String ((Ascii (false,
+                 false, true, false, false, true, true, false)), (String
+                 ((Ascii (true, false, true, false, false, true, true,
+                 false)), (String ((Ascii (true, true, false, false, true,
+                 true, true, false)), (String ((Ascii (false, false, false,
+                 false, false, true, false, false)), (String ((Ascii (true,
+                 false, false, false, false, true, true, false)), (String
+                 ((Ascii (false, true, true, true, false, true, true,
+                 false)), (String ((Ascii (false, false, true, false, false,
+                 true, true, false)), (String ((Ascii (false, false, false,
+                 false, false, true, false, false)), (String ((Ascii (true,
+                 true, false, false, false, true, true, false)), (String
+                 ((Ascii (false, false, true, true, false, true, true,
+                 false)), (String ((Ascii (true, false, false, false, false,
+                 true, true, false)), (String ((Ascii (true, true, false,
+                 false, true, true, true, false)), (String ((Ascii (true,
+                 true, false, false, true, true, true, false)), (String
+                 ((Ascii (true, false, true, false, false, true, true,
+                 false)), (String ((Ascii (true, true, false, false, true,
+                 true, true, false)), (String ((Ascii (false, false, false,
+                 false, false, true, false, false)), (String ((Ascii (false,
+                 false, false, false, true, true, true, false)), (String
+                 ((Ascii (true, false, false, false, false, true, true,
+                 false)), (String ((Ascii (false, false, true, false, true,
+                 true, true, false)), (String ((Ascii (false, false, false,
+                 true, false, true, true, false)), (String ((Ascii (false,
+                 false, false, false, false, true, false, false)), (String
+                 ((Ascii (true, false, true, true, false, true, true,
+                 false)), (String ((Ascii (true, false, true, false, true,
+                 true, true, false)), (String ((Ascii (true, true, false,
+                 false, true, true, true, false)), (String ((Ascii (false,
+                 false, true, false, true, true, true, false)), (String
+                 ((Ascii (false, false, false, false, false, true, false,
+                 false)), (String ((Ascii (false, true, false, false, false,
+                 true, true, false)), (String ((Ascii (true, false, true,
+                 false, false, true, true, false)), (String ((Ascii (false,
+                 false, false, false, false, true, false, false)), (String
+                 ((Ascii (false, true, true, true, false, true, true,
+                 false)), (String ((Ascii (true, true, true, true, false,
+                 true, true, false)), (String ((Ascii (false, true, true,
+                 true, false, true, true, false)), (String ((Ascii (true,
+                 false, true, true, false, true, false, false)), (String
+                 ((Ascii (true, true, true, true, false, true, true, false)),
+                 (String ((Ascii (false, true, true, false, true, true, true,
+                 false)), (String ((Ascii (true, false, true, false, false,
+                 true, true, false)), (String ((Ascii (false, true, false,
+                 false, true, true, true, false)), (String ((Ascii (false,
+                 false, true, true, false, true, true, false)), (String
+                 ((Ascii (true, false, false, false, false, true, true,
+                 false)), (String ((Ascii (false, false, false, false, true,
+                 true, true, false)), (String ((Ascii (false, false, false,
+                 false, true, true, true, false)), (String ((Ascii (true,
+                 false, false, true, false, true, true, false)), (String
+                 ((Ascii (false, true, true, true, false, true, true,
+                 false)), (String ((Ascii (true, true, true, false, false,
+                 true, true, false)), (String ((Ascii (false, true, true,
+                 true, false, true, false, false)),
+                 EmptyString)))))))))))))))))))))))))))))))))))))))))))))))))))))))))))))))))))))))))))))))))))))))))))))))
+          else Ok { cf_inv = i; cf_nodes = (to_lexical_normal npath true);
+                 cf_classes = (to_lexical_normal cpath true); cf_ignore =
+                 (match ign with
+                  | Some b -> b
+                  | None -> false); cf_compose = false; cf_reported =
+                 ((String ((Ascii (false, true, true, true, false, true,
+                 false, false)), (String ((Ascii (false, true, false, true,
+                 false, true, false, false)), EmptyString)))) :: []);
+                 cf_compiled = ((String ((Ascii (false, true, true, true,
+                 false, true, false, false)), (String ((Ascii (false, true,
+                 false, true, false, true, false, false)),
+                 EmptyString)))) :: []); cf_dots = false }
+        | None ->
+          Err (EConfig (String ((Ascii (true, true, true, true, false, false,
+            true, false)), (String ((Ascii (false, true, true, true, false,
+            true, true, false)), (String ((Ascii (true, false, true, false,
+            false, true, true, false)), (String ((Ascii (false, false, false,
+            false, false, true, false, false)), (String ((Ascii (true, true,
+            true, true, false, true, true, false)), (String ((Ascii (false,
+            true, true, false, false, true, true, false)), (String ((Ascii
+            (false, false, false, false, false, true, false, false)), (String
+            ((Ascii (true, false, false, true, false, true, true, false)),
+            (String ((Ascii (false, true, true, true, false, true, true,
+            false)), (String ((Ascii (false, true, true, false, true, true,
+            true, false)), (String ((Ascii (true, false, true, false, false,
+            true, true, false)), (String ((Ascii (false, true, true, true,
+            false, true, true, false)), (String ((Ascii (false, false, true,
+            false, true, true, true, false)), (String ((Ascii (true, true,
+            true, true, false, true, true, false)), (String ((Ascii (false,
+            true, false, false, true, true, true, false)), (String ((Ascii
+            (true, false, false, true, true, true, true, false)), (String
+            ((Ascii (false, false, false, false, false, true, false, false)),
+            (String ((Ascii (false, false, false, false, true, true, true,
+            false)), (String ((Ascii (true, false, false, false, false, true,
+            true, false)), (String ((Ascii (false, false, true, false, true,
+            true, true, false)), (String ((Ascii (false, false, false, true,
+            false, true, true, false)), (String ((Ascii (false, false, false,
+            false, false, true, false, false)), (String ((Ascii (true, false,
+            false, false, false, true, true, false)), (String ((Ascii (false,
+            true, true, true, false, true, true, false)), (String ((Ascii
+            (false, false, true, false, false, true, true, false)), (String
+            ((Ascii (false, false, false, false, false, true, false, false)),
+            (String ((Ascii (true, true, false, false, false, true, true,
+            false)), (String ((Ascii (false, false, true, true, false, true,
+            true, false)), (String ((Ascii (true, false, false, false, false,
+            true, true, false)), (String ((Ascii (true, true, false, false,
+            true, true, true, false)), (String ((Ascii (true, true, false,
+            false, true, true, true, false)), (String ((Ascii (true, false,
+            true, false, false, true, true, false)), (String ((Ascii (true,
+            true, false, false, true, true, true, false)), (String ((Ascii
+            (false, false, false, false, false, true, false, false)), (String
+            ((Ascii (false, false, false, false, true, true, true, false)),
+            (String ((Ascii (true, false, false, false, false, true, true,
+            false)), (String ((Ascii (false, false, true, false, true, true,
+            true, false)), (String ((Ascii (false, false, false, true, false,
+            true, true, false)), (String ((Ascii (false, false, false, false,
+            false, true, false, false)), (String ((Ascii (true, false, true,
+            true, false, true, true, false)), (String ((Ascii (true, false,
+            true, false, true, true, true, false)), (String ((Ascii (true,
+            true, false, false, true, true, true, false)), (String ((Ascii
+            (false, false, true, false, true, true, true, false)), (String
+            ((Ascii (false, false, false, false, false, true, false, false)),
+            (String ((Ascii (false, true, false, false, false, true, true,
+            false)), (String ((Ascii (true, false, true, false, false, true,
+            true, false)), (String ((Ascii (false, false, false, false,
+            false, true, false, false)), (String ((Ascii (false, false,
+            false, false, true, true, true, false)), (String ((Ascii (false,
+            true, false, false, true, true, true, false)), (String ((Ascii
+            (true, true, true, true, false, true, true, false)), (String
+            ((Ascii (false, true, true, false, true, true, true, false)),
+            (String ((Ascii (true, false, false, true, false, true, true,
+            false)), (String ((Ascii (false, false, true, false, false, true,
+            true, false)), (String ((Ascii (true, false, true, false, false,
+            true, true, false)), (String ((Ascii (false, false, true, false,
+            false, true, true, false)), (String ((Ascii (false, true, true,
+            true, false, true, false, false)),
+            EmptyString)))))))))))))))))))))))))))))))))))))))))))))))))))))))))))))))))))))))))))))))))))))))))))))))))))))))))))))))))))
+  | None ->
+    (match nodes with
+     | Some _ ->
+       (match inv with
+        | Some _ ->
+          let i =
+            opt_default inv (String ((Ascii (false, true, true, true, false,
+              true, false, false)), EmptyString))
+          in
+          let npath =
+            path_push i
+              (opt_default nodes (String ((Ascii (false, true, true, true,
+                false, true, true, false)), (String ((Ascii (true, true,
+                true, true, false, true, true, false)), (String ((Ascii
+                (false, false, true, false, false, true, true, false)),
+                (String ((Ascii (true, false, true, false, false, true, true,
+                false)), (String ((Ascii (true, true, false, false, true,
+                true, true, false)), EmptyString)))))))))))
+          in
+          let cpath =
+            path_push i
+              (opt_default classes (String ((Ascii (true, true, false, false,
+                false, true, true, false)), (String ((Ascii (false, false,
+                true, true, false, true, true, false)), (String ((Ascii
+                (true, false, false, false, false, true, true, false)),
+                (String ((Ascii (true, true, false, false, true, true, true,
+                false)), (String ((Ascii (true, true, false, false, true,
+                true, true, false)), (String ((Ascii (true, false, true,
+                false, false, true, true, false)), (String ((Ascii (true,
+                true, false, false, true, true, true, false)),
+                EmptyString)))))))))))))))
+          in
+          let nc = components npath in
+          let cc = components cpath in
+          if (||) (comps_prefix nc cc) (comps_prefix cc nc)
+          then Err (EConfig (String ((Ascii (false, true, true, true, false,
+                 false, true, false)), (String ((Ascii (true, true, true,
+                 true, false, true, true, false)), (String ((Ascii (false,
+                 false, true, false, false, true, true, false)), (String
+                 ((Ascii (true, false, true, false, false, true, true,
+                 false)), (String ((Ascii (true, true, false, false, true,
+                 true, true, false)), (String ((Ascii (false, false, false,
+                 false, false, true, false, false)), (String ((Ascii (true,
+                 false, false, false, false, true, true, false)), (String
+                 ((Ascii (false, true, true, true, false, true, true,
+                 false)), (String ((Ascii (false, false, true, false, false,
+                 true, true, false)), (String ((Ascii (false, false, false,
+                 false, false, true, false, false)), (String ((Ascii (true,
+                 true, false, false, false, true, true, false)), (String
+                 ((Ascii (false, false, true, true, false, true, true,
+                 false)), (String ((Ascii (true, false, false, false, false,
+                 true, true, false)), (String ((Ascii (true, true, false,
+                 false, true, true, true, false)), (String ((Ascii (true,
+                 true, false, false, true, true, true, false)), (String
+                 ((Ascii (true, false, true, false, false, true, true,
+                 false)), (String ((Ascii (true, true, false, false, true,
+                 true, true, false)), (String ((Ascii (false, false, false,
+                 false, false, true, false, false)), (String ((Ascii (false,
+                 false, false, false, true, true, true, false)), (String
+                 ((Ascii (true, false, false, false, false, true, true,
+                 false)), (String ((Ascii (false, false, true, false, true,
+                 true, true, false)), (String ((Ascii (false, false, false,
+                 true, false, true, true, false)), (String ((Ascii (false,
+                 false, false, false, false, true, false, false)), (String
+                 ((Ascii (true, false, true, true, false, true, true,
+                 false)), (String ((Ascii (true, false, true, false, true,
+                 true, true, false)), (String ((Ascii (true, true, false,
+                 false, true, true, true, false)), (String ((Ascii (false,
+                 false, true, false, true, true, true, false)), (String
+                 ((Ascii (false, false, false, false, false, true, false,
+                 false)), (String ((Ascii (false, true, false, false, false,
+                 true, true, false)), (String ((Ascii (true, false, true,
+                 false, false, true, true, false)), (String ((Ascii (false,
+                 false, false, false, false, true, false, false)), (String
+                 ((Ascii (false, true, true, true, false, true, true,
+                 false)), (String ((Ascii (true, true, true, true, false,
+                 true, true, false)), (String ((Ascii (false, true, true,
+                 true, false, true, true, false)), (String ((Ascii (true,
+                 false, true, true, false, true, false, false)), (String
+                 ((Ascii (true, true, true, true, false, true, true, false)),
+                 (String ((Ascii (false, true, true, false, true, true, true,
+                 false)), (String ((Ascii (true, false, true, false, false,
+                 true, true, false)), (String ((Ascii (false, true, false,
+                 false, true, true, true, false)), (String ((Ascii (false,
+                 false, true, true, false, true, true, false)), (String
+                 ((Ascii (true, false, false, false, false, true, true,
+                 false)), (String ((Ascii (false, false, false, false, true,
+                 true, true, false)), (String ((Ascii (false, false, false,
+                 false, true, true, true, false)), (String ((Ascii (true,
+                 false, false, true, false, true, true, false)), (String
+                 ((Ascii (false, true, true, true, false, true, true,
+                 false)), (String ((Ascii (true, true, true, false, false,
+                 true, true, false)), (String ((Ascii (false, true, true,
+                 true, false, true, false, false)),
+                 EmptyString)))))))))))))))))))))))))))))))))))))))))))))))))))))))))))))))))))))))))))))))))))))))))))))))
+          else Ok { cf_inv = i; cf_nodes = (to_lexical_normal npath true);
+                 cf_classes = (to_lexical_normal cpath true); cf_ignore =
+                 (match ign with
+                  | Some b -> b
+                  | None -> false); cf_compose = false; cf_reported =
+                 ((String ((Ascii (false, true, true, true, false, true,
+                 false, false)), (String ((Ascii (false, true, false, true,
+                 false, true, false, false)), EmptyString)))) :: []);
+                 cf_compiled = ((String ((Ascii (false, true, true, true,
+                 false, true, false, false)), (String ((Ascii (false, true,
+                 false, true, false, true, false, false)),
+                 EmptyString)))) :: []); cf_dots = false }
+        | None ->
+          (match classes with
+           | Some _ ->
+             let i =
+               opt_default inv (String ((Ascii (false, true, true, true,
+                 false, true, false, false)), EmptyString))
+             in
+             let npath =
+               path_push i
+                 (opt_default nodes (String ((Ascii (false, true, true, true,
+                   false, true, true, false)), (String ((Ascii (true, true,
+                   true, true, false, true, true, false)), (String ((Ascii
+                   (false, false, true, false, false, true, true, false)),
+                   (String ((Ascii (true, false, true, false, false, true,
+                   true, false)), (String ((Ascii (true, true, false, false,
+                   true, true, true, false)), EmptyString)))))))))))
+             in
+             let cpath =
+               path_push i
+                 (opt_default classes (String ((Ascii (true, true, false,
+                   false, false, true, true, false)), (String ((Ascii (false,
+                   false, true, true, false, true, true, false)), (String
+                   ((Ascii (true, false, false, false, false, true, true,
+                   false)), (String ((Ascii (true, true, false, false, true,
+                   true, true, false)), (String ((Ascii (true, true, false,
+                   false, true, true, true, false)), (String ((Ascii (true,
+                   false, true, false, false, true, true, false)), (String
+                   ((Ascii (true, true, false, false, true, true, true,
+                   false)), EmptyString)))))))))))))))
+             in
+             let nc = components npath in
+             let cc = components cpath in
+             if (||) (comps_prefix nc cc) (comps_prefix cc nc)
+             then Err (EConfig (String ((Ascii (false, true, true, true,
+                    false, false, true, false)), (String ((Ascii (true, true,
+                    true, true, false, true, true, false)), (String ((Ascii
+                    (false, false, true, false, false, true, true, false)),
+                    (String ((Ascii (true, false, true, false, false, true,
+                    true, false)), (String ((Ascii (true, true, false, false,
+                    true, true, true, false)), (String ((Ascii (false, false,
+                    false, false, false, true, false, false)), (String
+                    ((Ascii (true, false, false, false, false, true, true,
+                    false)), (String ((Ascii (false, true, true, true, false,
+                    true, true, false)), (String ((Ascii (false, false, true,
+                    false, false, true, true, false)), (String ((Ascii
+                    (false, false, false, false, false, true, false, false)),
+                    (String ((Ascii (true, true, false, false, false, true,
+                    true, false)), (String ((Ascii (false, false, true, true,
+                    false, true, true, false)), (String ((Ascii (true, false,
+                    false, false, false, true, true, false)), (String ((Ascii
+                    (true, true, false, false, true, true, true, false)),
+                    (String ((Ascii (true, true, false, false, true, true,
+                    true, false)), (String ((Ascii (true, false, true, false,
+                    false, true, true, false)), (String ((Ascii (true, true,
+                    false, false, true, true, true, false)), (String ((Ascii
+                    (false, false, false, false, false, true, false, false)),
+                    (String ((Ascii (false, false, false, false, true, true,
+                    true, false)), (String ((Ascii (true, false, false,
+                    false, false, true, true, false)), (String ((Ascii
+                    (false, false, true, false, true, true, true, false)),
+                    (String ((Ascii (false, false, false, true, false, true,
+                    true, false)), (String ((Ascii (false, false, false,
+                    false, false, true, false, false)), (String ((Ascii
+                    (true, false, true, true, false, true, true, false)),
+                    (String ((Ascii (true, false, true, false, true, true,
+                    true, false)), (String ((Ascii (true, true, false, false,
+                    true, true, true, false)), (String ((Ascii (false, false,
+                    true, false, true, true, true, false)), (String ((Ascii
+                    (false, false, false, false, false, true, false, false)),
+                    (String ((Ascii (false, true, false, false, false, true,
+                    true, false)), (String ((Ascii (true, false, true, false,
+                    false, true, true, false)), (String ((Ascii (false,
+                    false, false, false, false, true, false, false)), (String
+                    ((Ascii (false, true, true, true, false, true, true,
+                    false)), (String ((Ascii (true, true, true, true, false,
+                    true, true, false)), (String ((Ascii (false, true, true,
+                    true, false, true, true, false)), (String ((Ascii (true,
+                    false, true, true, false, true, false, false)), (String
+                    ((Ascii (true, true, true, true, false, true, true,
+                    false)), (String ((Ascii (false, true, true, false, true,
+                    true, true, false)), (String ((Ascii (true, false, true,
+                    false, false, true, true, false)), (String ((Ascii
+                    (false, true, false, false, true, true, true, false)),
+                    (String ((Ascii (false, false, true, true, false, true,
+                    true, false)), (String ((Ascii (true, false, false,
+                    false, false, true, true, false)), (String ((Ascii
+                    (false, false, false, false, true, true, true, false)),
+                    (String ((Ascii (false, false, false, false, true, true,
+                    true, false)), (String ((Ascii (true, false, false, true,
+                    false, true, true, false)), (String ((Ascii (false, true,
+                    true, true, false, true, true, false)), (String ((Ascii
+                    (true, true, true, false, false, true, true, false)),
+                    (String ((Ascii (false, true, true, true, false, true,
+                    false, false)),
+                    EmptyString)))))))))))))))))))))))))))))))))))))))))))))))))))))))))))))))))))))))))))))))))))))))))))))))
+             else Ok { cf_inv = i; cf_nodes = (to_lexical_normal npath true);
+                    cf_classes = (to_lexical_normal cpath true); cf_ignore =
+                    (match ign with
+                     | Some b -> b
+                     | None -> false); cf_compose = false; cf_reported =
+                    ((String ((Ascii (false, true, true, true, false, true,
+                    false, false)), (String ((Ascii (false, true, false,
+                    true, false, true, false, false)),
+                    EmptyString)))) :: []); cf_compiled = ((String ((Ascii
+                    (false, true, true, true, false, true, false, false)),
+                    (String ((Ascii (false, true, false, true, false, true,
+                    false, false)), EmptyString)))) :: []); cf_dots = false }
+           | None ->
+             Err (EConfig (String ((Ascii (true, true, true, true, false,
+               false, true, false)), (String ((Ascii (false, true, true,
+               true, false, true, true, false)), (String ((Ascii (true,
+               false, true, false, false, true, true, false)), (String
+               ((Ascii (false, false, false, false, false, true, false,
+               false)), (String ((Ascii (true, true, true, true, false, true,
+               true, false)), (String ((Ascii (false, true, true, false,
+               false, true, true, false)), (String ((Ascii (false, false,
+               false, false, false, true, false, false)), (String ((Ascii
+               (true, false, false, true, false, true, true, false)), (String
+               ((Ascii (false, true, true, true, false, true, true, false)),
+               (String ((Ascii (false, true, true, false, true, true, true,
+               false)), (String ((Ascii (true, false, true, false, false,
+               true, true, false)), (String ((Ascii (false, true, true, true,
+               false, true, true, false)), (String ((Ascii (false, false,
+               true, false, true, true, true, false)), (String ((Ascii (true,
+               true, true, true, false, true, true, false)), (String ((Ascii
+               (false, true, false, false, true, true, true, false)), (String
+               ((Ascii (true, false, false, true, true, true, true, false)),
+               (String ((Ascii (false, false, false, false, false, true,
+               false, false)), (String ((Ascii (false, false, false, false,
+               true, true, true, false)), (String ((Ascii (true, false,
+               false, false, false, true, true, false)), (String ((Ascii
+               (false, false, true, false, true, true, true, false)), (String
+               ((Ascii (false, false, false, true, false, true, true,
+               false)), (String ((Ascii (false, false, false, false, false,
+               true, false, false)), (String ((Ascii (true, false, false,
+               false, false, true, true, false)), (String ((Ascii (false,
+               true, true, true, false, true, true, false)), (String ((Ascii
+               (false, false, true, false, false, true, true, false)),
+               (String ((Ascii (false, false, false, false, false, true,
+               false, false)), (String ((Ascii (true, true, false, false,
+               false, true, true, false)), (String ((Ascii (false, false,
+               true, true, false, true, true, false)), (String ((Ascii (true,
+               false, false, false, false, true, true, false)), (String
+               ((Ascii (true, true, false, false, true, true, true, false)),
+               (String ((Ascii (true, true, false, false, true, true, true,
+               false)), (String ((Ascii (true, false, true, false, false,
+               true, true, false)), (String ((Ascii (true, true, false,
+               false, true, true, true, false)), (String ((Ascii (false,
+               false, false, false, false, true, false, false)), (String
+               ((Ascii (false, false, false, false, true, true, true,
+               false)), (String ((Ascii (true, false, false, false, false,
+               true, true, false)), (String ((Ascii (false, false, true,
+               false, true, true, true, false)), (String ((Ascii (false,
+               false, false, true, false, true, true, false)), (String
+               ((Ascii (false, false, false, false, false, true, false,
+               false)), (String ((Ascii (true, false, true, true, false,
+               true, true, false)), (String ((Ascii (true, false, true,
+               false, true, true, true, false)), (String ((Ascii (true, true,
+               false, false, true, true, true, false)), (String ((Ascii
+               (false, false, true, false, true, true, true, false)), (String
+               ((Ascii (false, false, false, false, false, true, false,
+               false)), (String ((Ascii (false, true, false, false, false,
+               true, true, false)), (String ((Ascii (true, false, true,
+               false, false, true, true, false)), (String ((Ascii (false,
+               false, false, false, false, true, false, false)), (String
+               ((Ascii (false, false, false, false, true, true, true,
+               false)), (String ((Ascii (false, true, false, false, true,
+               true, true, false)), (String ((Ascii (true, true, true, true,
+               false, true, true, false)), (String ((Ascii (false, true,
+               true, false, true, true, true, false)), (String ((Ascii (true,
+               false, false, true, false, true, true, false)), (String
+               ((Ascii (false, false, true, false, false, true, true,
+               false)), (String ((Ascii (true, false, true, false, false,
+               true, true, false)), (String ((Ascii (false, false, true,
+               false, false, true, true, false)), (String ((Ascii (false,
+               true, true, true, false, true, false, false)),
+               EmptyString)))))))))))))))))))))))))))))))))))))))))))))))))))))))))))))))))))))))))))))))))))))))))))))))))))))))))))))))))))
+     | None ->
+       Err (EConfig (String ((Ascii (true, true, true, true, false, false,
+         true, false)), (String ((Ascii (false, true, true, true, false,
+         true, true, false)), (String ((Ascii (true, false, true, false,
+         false, true, true, false)), (String ((Ascii (false, false, false,
+         false, false, true, false, false)), (String ((Ascii (true, true,
+         true, true, false, true, true, false)), (String ((Ascii (false,
+         true, true, false, false, true, true, false)), (String ((Ascii
+         (false, false, false, false, false, true, false, false)), (String
+         ((Ascii (true, false, false, true, false, true, true, false)),
+         (String ((Ascii (false, true, true, true, false, true, true,
+         false)), (String ((Ascii (false, true, true, false, true, true,
+         true, false)), (String ((Ascii (true, false, true, false, false,
+         true, true, false)), (String ((Ascii (false, true, true, true,
+         false, true, true, false)), (String ((Ascii (false, false, true,
+         false, true, true, true, false)), (String ((Ascii (true, true, true,
+         true, false, true, true, false)), (String ((Ascii (false, true,
+         false, false, true, true, true, false)), (String ((Ascii (true,
+         false, false, true, true, true, true, false)), (String ((Ascii
+         (false, false, false, false, false, true, false, false)), (String
+         ((Ascii (false, false, false, false, true, true, true, false)),
+         (String ((Ascii (true, false, false, false, false, true, true,
+         false)), (String ((Ascii (false, false, true, false, true, true,
+         true, false)), (String ((Ascii (false, false, false, true, false,
+         true, true, false)), (String ((Ascii (false, false, false, false,
+         false, true, false, false)), (String ((Ascii (true, false, false,
+         false, false, true, true, false)), (String ((Ascii (false, true,
+         true, true, false, true, true, false)), (String ((Ascii (false,
+         false, true, false, false, true, true, false)), (String ((Ascii
+         (false, false, false, false, false, true, false, false)), (String
+         ((Ascii (false, true, true, true, false, true, true, false)),
+         (String ((Ascii (true, true, true, true, false, true, true, false)),
+         (String ((Ascii (false, false, true, false, false, true, true,
+         false)), (String ((Ascii (true, false, true, false, false, true,
+         true, false)), (String ((Ascii (true, true, false, false, true,
+         true, true, false)), (String ((Ascii (false, false, false, false,
+         false, true, false, false)), (String ((Ascii (false, false, false,
+         false, true, true, true, false)), (String ((Ascii (true, false,
+         false, false, false, true, true, false)), (String ((Ascii (false,
+         false, true, false, true, true, true, false)), (String ((Ascii
+         (false, false, false, true, false, true, true, false)), (String
+         ((Ascii (false, false, false, false, false, true, false, false)),
+         (String ((Ascii (true, false, true, true, false, true, true,
+         false)), (String ((Ascii (true, false, true, false, true, true,
+         true, false)), (String ((Ascii (true, true, false, false, true,
+         true, true, false)), (String ((Ascii (false, false, true, false,
+         true, true, true, false)), (String ((Ascii (false, false, false,
+         false, false, true, false, false)), (String ((Ascii (false, true,
+         false, false, false, true, true, false)), (String ((Ascii (true,
+         false, true, false, false, true, true, false)), (String ((Ascii
+         (false, false, false, false, false, true, false, false)), (String
+         ((Ascii (false, false, false, false, true, true, true, false)),
+         (String ((Ascii (false, true, false, false, true, true, true,
+         false)), (String ((Ascii (true, true, true, true, false, true, true,
+         false)), (String ((Ascii (false, true, true, false, true, true,
+         true, false)), (String ((Ascii (true, false, false, true, false,
+         true, true, false)), (String ((Ascii (false, false, true, false,
+         false, true, true, false)), (String ((Ascii (true, false, true,
+         false, false, true, true, false)), (String ((Ascii (false, false,
+         true, false, false, true, true, false)), (String ((Ascii (false,
+         true, true, true, false, true, false, false)),
+         EmptyString))))))))))))))))))))))))))))))))))))))))))))))))))))))))))))))))))))))))))))))))))))))))))))))))))))))))))))))
+
+(** val value_text : yaml -> string option **)
+
+let value_text = function
+| YNull ->
+  Some (String ((Ascii (false, true, true, true, false, true, true, false)),
+    (String ((Ascii (true, false, true, false, true, true, true, false)),
+    (String ((Ascii (false, false, true, true, false, true, true, false)),
+    (String ((Ascii (false, false, true, true, false, true, true, false)),
+    EmptyString))))))))
+| YBool b ->
+  if b
+  then Some (String ((Ascii (false, false, true, false, true, true, true,
+         false)), (String ((Ascii (false, true, false, false, true, true,
+         true, false)), (String ((Ascii (true, false, true, false, true,
+         true, true, false)), (String ((Ascii (true, false, true, false,
+         false, true, true, false)), EmptyString))))))))
+  else Some (String ((Ascii (false, true, true, false, false, true, true,
+         false)), (String ((Ascii (true, false, false, false, false, true,
+         true, false)), (String ((Ascii (false, false, true, true, false,
+         true, true, false)), (String ((Ascii (true, true, false, false,
+         true, true, true, false)), (String ((Ascii (true, false, true,
+         false, false, true, true, false)), EmptyString))))))))))
+| YNum n0 -> Some (num_display n0)
+| YStr s -> Some s
+| _ -> None
+
+(** val is_flag_name : string -> bool **)
+
+let is_flag_name s =
+  (||)
+    ((||)
+      (eqb1 s (String ((Ascii (true, true, false, false, false, true, true,
+        false)), (String ((Ascii (true, true, true, true, false, true, true,
+        false)), (String ((Ascii (true, false, true, true, false, true, true,
+        false)), (String ((Ascii (false, false, false, false, true, true,
+        true, false)), (String ((Ascii (true, true, true, true, false, true,
+        true, false)), (String ((Ascii (true, true, false, false, true, true,
+        true, false)), (String ((Ascii (true, false, true, false, false,
+        true, true, false)), (String ((Ascii (true, false, true, true, false,
+        true, false, false)), (String ((Ascii (false, true, true, true,
+        false, true, true, false)), (String ((Ascii (true, true, true, true,
+        false, true, true, false)), (String ((Ascii (false, false, true,
+        false, false, true, true, false)), (String ((Ascii (true, false,
+        true, false, false, true, true, false)), (String ((Ascii (true,
+        false, true, true, false, true, false, false)), (String ((Ascii
+        (false, true, true, true, false, true, true, false)), (String ((Ascii
+        (true, false, false, false, false, true, true, false)), (String
+        ((Ascii (true, false, true, true, false, true, true, false)), (String
+        ((Ascii (true, false, true, false, false, true, true, false)),
+        (String ((Ascii (true, false, true, true, false, true, false,
+        false)), (String ((Ascii (false, false, true, true, false, true,
+        true, false)), (String ((Ascii (true, false, false, true, false,
+        true, true, false)), (String ((Ascii (false, false, true, false,
+        true, true, true, false)), (String ((Ascii (true, false, true, false,
+        false, true, true, false)), (String ((Ascii (false, true, false,
+        false, true, true, true, false)), (String ((Ascii (true, false,
+        false, false, false, true, true, false)), (String ((Ascii (false,
+        false, true, true, false, true, true, false)), (String ((Ascii (true,
+        false, true, true, false, true, false, false)), (String ((Ascii
+        (false, false, true, false, false, true, true, false)), (String
+        ((Ascii (true, true, true, true, false, true, true, false)), (String
+        ((Ascii (false, false, true, false, true, true, true, false)),
+        (String ((Ascii (true, true, false, false, true, true, true, false)),
+        EmptyString)))))))))))))))))))))))))))))))))))))))))))))))))))))))))))))
+      (eqb1 s (String ((Ascii (true, true, false, false, false, true, true,
+        false)), (String ((Ascii (true, true, true, true, false, true, true,
+        false)), (String ((Ascii (true, false, true, true, false, true, true,
+        false)), (String ((Ascii (false, false, false, false, true, true,
+        true, false)), (String ((Ascii (true, true, true, true, false, true,
+        true, false)), (String ((Ascii (true, true, false, false, true, true,
+        true, false)), (String ((Ascii (true, false, true, false, false,
+        true, true, false)), (String ((Ascii (true, true, true, true, true,
+        false, true, false)), (String ((Ascii (false, true, true, true,
+        false, true, true, false)), (String ((Ascii (true, true, true, true,
+        false, true, true, false)), (String ((Ascii (false, false, true,
+        false, false, true, true, false)), (String ((Ascii (true, false,
+        true, false, false, true, true, false)), (String ((Ascii (true, true,
+        true, true, true, false, true, false)), (String ((Ascii (false, true,
+        true, true, false, true, true, false)), (String ((Ascii (true, false,
+        false, false, false, true, true, false)), (String ((Ascii (true,
+        false, true, true, false, true, true, false)), (String ((Ascii (true,
+        false, true, false, false, true, true, false)), (String ((Ascii
+        (true, true, true, true, true, false, true, false)), (String ((Ascii
+        (false, false, true, true, false, true, true, false)), (String
+        ((Ascii (true, false, false, true, false, true, true, false)),
+        (String ((Ascii (false, false, true, false, true, true, true,
+        false)), (String ((Ascii (true, false, true, false, false, true,
+        true, false)), (String ((Ascii (false, true, false, false, true,
+        true, true, false)), (String ((Ascii (true, false, false, false,
+        false, true, true, false)), (String ((Ascii (false, false, true,
+        true, false, true, true, false)), (String ((Ascii (true, true, true,
+        true, true, false, true, false)), (String ((Ascii (false, false,
+        true, false, false, true, true, false)), (String ((Ascii (true, true,
+        true, true, false, true, true, false)), (String ((Ascii (false,
+        false, true, false, true, true, true, false)), (String ((Ascii (true,
+        true, false, false, true, true, true, false)),
+        EmptyString))))))))))))))))))))))))))))))))))))))))))))))))))))))))))))))
+    (eqb1 s (String ((Ascii (true, true, false, false, false, false, true,
+      false)), (String ((Ascii (true, true, true, true, false, true, true,
+      false)), (String ((Ascii (true, false, true, true, false, true, true,
+      false)), (String ((Ascii (false, false, false, false, true, true, true,
+      false)), (String ((Ascii (true, true, true, true, false, true, true,
+      false)), (String ((Ascii (true, true, false, false, true, true, true,
+      false)), (String ((Ascii (true, false, true, false, false, true, true,
+      false)), (String ((Ascii (false, true, true, true, false, false, true,
+      false)), (String ((Ascii (true, true, true, true, false, true, true,
+      false)), (String ((Ascii (false, false, true, false, false, true, true,
+      false)), (String ((Ascii (true, false, true, false, false, true, true,
+      false)), (String ((Ascii (false, true, true, true, false, false, true,
+      false)), (String ((Ascii (true, false, false, false, false, true, true,
+      false)), (String ((Ascii (true, false, true, true, false, true, true,
+      false)), (String ((Ascii (true, false, true, false, false, true, true,
+      false)), (String ((Ascii (false, false, true, true, false, false, true,
+      false)), (String ((Ascii (true, false, false, true, false, true, true,
+      false)), (String ((Ascii (false, false, true, false, true, true, true,
+      false)), (String ((Ascii (true, false, true, false, false, true, true,
+      false)), (String ((Ascii (false, true, false, false, true, true, true,
+      false)), (String ((Ascii (true, false, false, false, false, true, true,
+      false)), (String ((Ascii (false, false, true, true, false, true, true,
+      false)), (String ((Ascii (false, false, true, false, false, false,
+      true, false)), (String ((Ascii (true, true, true, true, false, true,
+      true, false)), (String ((Ascii (false, false, true, false, true, true,
+      true, false)), (String ((Ascii (true, true, false, false, true, true,
+      true, false)),
+      EmptyString)))))))))))))))))))))))))))))))))))))))))))))))))))))
+
+(** val upd_nodes : config -> string -> config **)
+
+let upd_nodes c v =
+  { cf_inv = c.cf_inv; cf_nodes = v; cf_classes = c.cf_classes; cf_ignore =
+    c.cf_ignore; cf_compose = c.cf_compose; cf_reported = c.cf_reported;
+    cf_compiled = c.cf_compiled; cf_dots = c.cf_dots }
+
+(** val upd_classes : config -> string -> config **)
+
+let upd_classes c v =
+  { cf_inv = c.cf_inv; cf_nodes = c.cf_nodes; cf_classes = v; cf_ignore =
+    c.cf_ignore; cf_compose = c.cf_compose; cf_reported = c.cf_reported;
+    cf_compiled = c.cf_compiled; cf_dots = c.cf_dots }
+
+(** val upd_ignore : config -> bool -> config **)
+
+let upd_ignore c v =
+  { cf_inv = c.cf_inv; cf_nodes = c.cf_nodes; cf_classes = c.cf_classes;
+    cf_ignore = v; cf_compose = c.cf_compose; cf_reported = c.cf_reported;
+    cf_compiled = c.cf_compiled; cf_dots = c.cf_dots }
+
+(** val upd_compose : config -> bool -> config **)
+
+let upd_compose c v =
+  { cf_inv = c.cf_inv; cf_nodes = c.cf_nodes; cf_classes = c.cf_classes;
+    cf_ignore = c.cf_ignore; cf_compose = v; cf_reported = c.cf_reported;
+    cf_compiled = c.cf_compiled; cf_dots = c.cf_dots }
+
+(** val upd_reported : config -> string list -> config **)
+
+let upd_reported c v =
+  { cf_inv = c.cf_inv; cf_nodes = c.cf_nodes; cf_classes = c.cf_classes;
+    cf_ignore = c.cf_ignore; cf_compose = c.cf_compose; cf_reported = v;
+    cf_compiled = c.cf_compiled; cf_dots = c.cf_dots }
+
+(** val upd_compiled : config -> string list -> config **)
+
+let upd_compiled c v =
+  { cf_inv = c.cf_inv; cf_nodes = c.cf_nodes; cf_classes = c.cf_classes;
+    cf_ignore = c.cf_ignore; cf_compose = c.cf_compose; cf_reported =
+    c.cf_reported; cf_compiled = v; cf_dots = c.cf_dots }
+
+(** val upd_dots : config -> bool -> config **)
+
+let upd_dots c v =
+  { cf_inv = c.cf_inv; cf_nodes = c.cf_nodes; cf_classes = c.cf_classes;
+    cf_ignore = c.cf_ignore; cf_compose = c.cf_compose; cf_reported =
+    c.cf_reported; cf_compiled = c.cf_compiled; cf_dots = v }
+
+(** val all_strings : yaml list -> string list option **)
+
+let rec all_strings = function
+| [] -> Some []
+| y :: l' ->
+  (match y with
+   | YStr s -> option_map (fun x -> s :: x) (all_strings l')
+   | _ -> None)
+
+(** val set_option : config -> string -> string -> yaml -> config res **)
+
+let set_option c cfg_path k v =
+  if eqb1 k (String ((Ascii (false, true, true, true, false, true, true,
+       false)), (String ((Ascii (true, true, true, true, false, true, true,
+       false)), (String ((Ascii (false, false, true, false, false, true,
+       true, false)), (String ((Ascii (true, false, true, false, false, true,
+       true, false)), (String ((Ascii (true, true, false, false, true, true,
+       true, false)), (String ((Ascii (true, true, true, true, true, false,
+       true, false)), (String ((Ascii (true, false, true, false, true, true,
+       true, false)), (String ((Ascii (false, true, false, false, true, true,
+       true, false)), (String ((Ascii (true, false, false, true, false, true,
+       true, false)), EmptyString))))))))))))))))))
+  then (match value_text v with
+        | Some t -> Ok (upd_nodes c (with_file_name cfg_path t))
+        | None ->
+          Err (EConfig (String ((Ascii (false, true, true, true, false, true,
+            true, false)), (String ((Ascii (true, true, true, true, false,
+            true, true, false)), (String ((Ascii (false, false, true, false,
+            false, true, true, false)), (String ((Ascii (true, false, true,
+            false, false, true, true, false)), (String ((Ascii (true, true,
+            false, false, true, true, true, false)), (String ((Ascii (true,
+            true, true, true, true, false, true, false)), (String ((Ascii
+            (true, false, true, false, true, true, true, false)), (String
+            ((Ascii (false, true, false, false, true, true, true, false)),
+            (String ((Ascii (true, false, false, true, false, true, true,
+            false)), EmptyString))))))))))))))))))))
+  else if eqb1 k (String ((Ascii (true, true, false, false, false, true,
+            true, false)), (String ((Ascii (false, false, true, true, false,
+            true, true, false)), (String ((Ascii (true, false, false, false,
+            false, true, true, false)), (String ((Ascii (true, true, false,
+            false, true, true, true, false)), (String ((Ascii (true, true,
+            false, false, true, true, true, false)), (String ((Ascii (true,
+            false, true, false, false, true, true, false)), (String ((Ascii
+            (true, true, false, false, true, true, true, false)), (String
+            ((Ascii (true, true, true, true, true, false, true, false)),
+            (String ((Ascii (true, false, true, false, true, true, true,
+            false)), (String ((Ascii (false, true, false, false, true, true,
+            true, false)), (String ((Ascii (true, false, false, true, false,
+            true, true, false)), EmptyString))))))))))))))))))))))
+       then (match value_text v with
+             | Some t -> Ok (upd_classes c (with_file_name cfg_path t))
+             | None ->
+               Err (EConfig (String ((Ascii (true, true, false, false, false,
+                 true, true, false)), (String ((Ascii (false, false, true,
+                 true, false, true, true, false)), (String ((Ascii (true,
+                 false, false, false, false, true, true, false)), (String
+                 ((Ascii (true, true, false, false, true, true, true,
+                 false)), (String ((Ascii (true, true, false, false, true,
+                 true, true, false)), (String ((Ascii (true, false, true,
+                 false, false, true, true, false)), (String ((Ascii (true,
+                 true, false, false, true, true, true, false)), (String
+                 ((Ascii (true, true, true, true, true, false, true, false)),
+                 (String ((Ascii (true, false, true, false, true, true, true,
+                 false)), (String ((Ascii (false, true, false, false, true,
+                 true, true, false)), (String ((Ascii (true, false, false,
+                 true, false, true, true, false)),
+                 EmptyString))))))))))))))))))))))))
+       else if eqb1 k (String ((Ascii (true, false, false, true, false, true,
+                 true, false)), (String ((Ascii (true, true, true, false,
+                 false, true, true, false)), (String ((Ascii (false, true,
+                 true, true, false, true, true, false)), (String ((Ascii
+                 (true, true, true, true, false, true, true, false)), (String
+                 ((Ascii (false, true, false, false, true, true, true,
+                 false)), (String ((Ascii (true, false, true, false, false,
+                 true, true, false)), (String ((Ascii (true, true, true,
+                 true, true, false, true, false)), (String ((Ascii (true,
+                 true, false, false, false, true, true, false)), (String
+                 ((Ascii (false, false, true, true, false, true, true,
+                 false)), (String ((Ascii (true, false, false, false, false,
+                 true, true, false)), (String ((Ascii (true, true, false,
+                 false, true, true, true, false)), (String ((Ascii (true,
+                 true, false, false, true, true, true, false)), (String
+                 ((Ascii (true, true, true, true, true, false, true, false)),
+                 (String ((Ascii (false, true, true, true, false, true, true,
+                 false)), (String ((Ascii (true, true, true, true, false,
+                 true, true, false)), (String ((Ascii (false, false, true,
+                 false, true, true, true, false)), (String ((Ascii (false,
+                 true, true, false, false, true, true, false)), (String
+                 ((Ascii (true, true, true, true, false, true, true, false)),
+                 (String ((Ascii (true, false, true, false, true, true, true,
+                 false)), (String ((Ascii (false, true, true, true, false,
+                 true, true, false)), (String ((Ascii (false, false, true,
+                 false, false, true, true, false)),
+                 EmptyString))))))))))))))))))))))))))))))))))))))))))
+            then (match v with
+                  | YBool b -> Ok (upd_ignore c b)
+                  | _ ->
+                    Err (EConfig (String ((Ascii (true, false, false, true,
+                      false, true, true, false)), (String ((Ascii (true,
+                      true, true, false, false, true, true, false)), (String
+                      ((Ascii (false, true, true, true, false, true, true,
+                      false)), (String ((Ascii (true, true, true, true,
+                      false, true, true, false)), (String ((Ascii (false,
+                      true, false, false, true, true, true, false)), (String
+                      ((Ascii (true, false, true, false, false, true, true,
+                      false)), (String ((Ascii (true, true, true, true, true,
+                      false, true, false)), (String ((Ascii (true, true,
+                      false, false, false, true, true, false)), (String
+                      ((Ascii (false, false, true, true, false, true, true,
+                      false)), (String ((Ascii (true, false, false, false,
+                      false, true, true, false)), (String ((Ascii (true,
+                      true, false, false, true, true, true, false)), (String
+                      ((Ascii (true, true, false, false, true, true, true,
+                      false)), (String ((Ascii (true, true, true, true, true,
+                      false, true, false)), (String ((Ascii (false, true,
+                      true, true, false, true, true, false)), (String ((Ascii
+                      (true, true, true, true, false, true, true, false)),
+                      (String ((Ascii (false, false, true, false, true, true,
+                      true, false)), (String ((Ascii (false, true, true,
+                      false, false, true, true, false)), (String ((Ascii
+                      (true, true, true, true, false, true, true, false)),
+                      (String ((Ascii (true, false, true, false, true, true,
+                      true, false)), (String ((Ascii (false, true, true,
+                      true, false, true, true, false)), (String ((Ascii
+                      (false, false, true, false, false, true, true, false)),
+                      EmptyString))))))))))))))))))))))))))))))))))))))))))))
+            else if eqb1 k (String ((Ascii (true, false, false, true, false,
+                      true, true, false)), (String ((Ascii (true, true, true,
+                      false, false, true, true, false)), (String ((Ascii
+                      (false, true, true, true, false, true, true, false)),
+                      (String ((Ascii (true, true, true, true, false, true,
+                      true, false)), (String ((Ascii (false, true, false,
+                      false, true, true, true, false)), (String ((Ascii
+                      (true, false, true, false, false, true, true, false)),
+                      (String ((Ascii (true, true, true, true, true, false,
+                      true, false)), (String ((Ascii (true, true, false,
+                      false, false, true, true, false)), (String ((Ascii
+                      (false, false, true, true, false, true, true, false)),
+                      (String ((Ascii (true, false, false, false, false,
+                      true, true, false)), (String ((Ascii (true, true,
+                      false, false, true, true, true, false)), (String
+                      ((Ascii (true, true, false, false, true, true, true,
+                      false)), (String ((Ascii (true, true, true, true, true,
+                      false, true, false)), (String ((Ascii (false, true,
+                      true, true, false, true, true, false)), (String ((Ascii
+                      (true, true, true, true, false, true, true, false)),
+                      (String ((Ascii (false, false, true, false, true, true,
+                      true, false)), (String ((Ascii (false, true, true,
+                      false, false, true, true, false)), (String ((Ascii
+                      (true, true, true, true, false, true, true, false)),
+                      (String ((Ascii (true, false, true, false, true, true,
+                      true, false)), (String ((Ascii (false, true, true,
+                      true, false, true, true, false)), (String ((Ascii
+                      (false, false, true, false, false, true, true, false)),
+                      (String ((Ascii (true, true, true, true, true, false,
+                      true, false)), (String ((Ascii (false, true, false,
+                      false, true, true, true, false)), (String ((Ascii
+                      (true, false, true, false, false, true, true, false)),
+                      (String ((Ascii (true, true, true, false, false, true,
+                      true, false)), (String ((Ascii (true, false, true,
+                      false, false, true, true, false)), (String ((Ascii
+                      (false, false, false, true, true, true, true, false)),
+                      (String ((Ascii (false, false, false, false, true,
+                      true, true, false)),
+                      EmptyString))))))))))))))))))))))))))))))))))))))))))))))))))))))))
+                 then (match v with
+                       | YSeq l ->
+                         (match all_strings l with
+                          | Some ps -> Ok (upd_reported c ps)
+                          | None ->
+                            Err (EConfig (String ((Ascii (true, false, false,
+                              true, false, true, true, false)), (String
+                              ((Ascii (true, true, true, false, false, true,
+                              true, false)), (String ((Ascii (false, true,
+                              true, true, false, true, true, false)), (String
+                              ((Ascii (true, true, true, true, false, true,
+                              true, false)), (String ((Ascii (false, true,
+                              false, false, true, true, true, false)),
+                              (String ((Ascii (true, false, true, false,
+                              false, true, true, false)), (String ((Ascii
+                              (true, true, true, true, true, false, true,
+                              false)), (String ((Ascii (true, true, false,
+                              false, false, true, true, false)), (String
+                              ((Ascii (false, false, true, true, false, true,
+                              true, false)), (String ((Ascii (true, false,
+                              false, false, false, true, true, false)),
+                              (String ((Ascii (true, true, false, false,
+                              true, true, true, false)), (String ((Ascii
+                              (true, true, false, false, true, true, true,
+                              false)), (String ((Ascii (true, true, true,
+                              true, true, false, true, false)), (String
+                              ((Ascii (false, true, true, true, false, true,
+                              true, false)), (String ((Ascii (true, true,
+                              true, true, false, true, true, false)), (String
+                              ((Ascii (false, false, true, false, true, true,
+                              true, false)), (String ((Ascii (false, true,
+                              true, false, false, true, true, false)),
+                              (String ((Ascii (true, true, true, true, false,
+                              true, true, false)), (String ((Ascii (true,
+                              false, true, false, true, true, true, false)),
+                              (String ((Ascii (false, true, true, true,
+                              false, true, true, false)), (String ((Ascii
+                              (false, false, true, false, false, true, true,
+                              false)), (String ((Ascii (true, true, true,
+                              true, true, false, true, false)), (String
+                              ((Ascii (false, true, false, false, true, true,
+                              true, false)), (String ((Ascii (true, false,
+                              true, false, false, true, true, false)),
+                              (String ((Ascii (true, true, true, false,
+                              false, true, true, false)), (String ((Ascii
+                              (true, false, true, false, false, true, true,
+                              false)), (String ((Ascii (false, false, false,
+                              true, true, true, true, false)), (String
+                              ((Ascii (false, false, false, false, true,
+                              true, true, false)), (String ((Ascii (false,
+                              false, false, false, false, true, false,
+                              false)), (String ((Ascii (true, false, true,
+                              false, false, true, true, false)), (String
+                              ((Ascii (false, true, true, true, false, true,
+                              true, false)), (String ((Ascii (false, false,
+                              true, false, true, true, true, false)), (String
+                              ((Ascii (false, true, false, false, true, true,
+                              true, false)), (String ((Ascii (true, false,
+                              false, true, true, true, true, false)),
+                              EmptyString))))))))))))))))))))))))))))))))))))))))))))))))))))))))))))))))))))))
+                       | _ ->
+                         Err (EConfig (String ((Ascii (true, false, false,
+                           true, false, true, true, false)), (String ((Ascii
+                           (true, true, true, false, false, true, true,
+                           false)), (String ((Ascii (false, true, true, true,
+                           false, true, true, false)), (String ((Ascii (true,
+                           true, true, true, false, true, true, false)),
+                           (String ((Ascii (false, true, false, false, true,
+                           true, true, false)), (String ((Ascii (true, false,
+                           true, false, false, true, true, false)), (String
+                           ((Ascii (true, true, true, true, true, false,
+                           true, false)), (String ((Ascii (true, true, false,
+                           false, false, true, true, false)), (String ((Ascii
+                           (false, false, true, true, false, true, true,
+                           false)), (String ((Ascii (true, false, false,
+                           false, false, true, true, false)), (String ((Ascii
+                           (true, true, false, false, true, true, true,
+                           false)), (String ((Ascii (true, true, false,
+                           false, true, true, true, false)), (String ((Ascii
+                           (true, true, true, true, true, false, true,
+                           false)), (String ((Ascii (false, true, true, true,
+                           false, true, true, false)), (String ((Ascii (true,
+                           true, true, true, false, true, true, false)),
+                           (String ((Ascii (false, false, true, false, true,
+                           true, true, false)), (String ((Ascii (false, true,
+                           true, false, false, true, true, false)), (String
+                           ((Ascii (true, true, true, true, false, true,
+                           true, false)), (String ((Ascii (true, false, true,
+                           false, true, true, true, false)), (String ((Ascii
+                           (false, true, true, true, false, true, true,
+                           false)), (String ((Ascii (false, false, true,
+                           false, false, true, true, false)), (String ((Ascii
+                           (true, true, true, true, true, false, true,
+                           false)), (String ((Ascii (false, true, false,
+                           false, true, true, true, false)), (String ((Ascii
+                           (true, false, true, false, false, true, true,
+                           false)), (String ((Ascii (true, true, true, false,
+                           false, true, true, false)), (String ((Ascii (true,
+                           false, true, false, false, true, true, false)),
+                           (String ((Ascii (false, false, false, true, true,
+                           true, true, false)), (String ((Ascii (false,
+                           false, false, false, true, true, true, false)),
+                           EmptyString))))))))))))))))))))))))))))))))))))))))))))))))))))))))))
+                 else if eqb1 k (String ((Ascii (true, true, false, false,
+                           false, true, true, false)), (String ((Ascii (true,
+                           true, true, true, false, true, true, false)),
+                           (String ((Ascii (true, false, true, true, false,
+                           true, true, false)), (String ((Ascii (false,
+                           false, false, false, true, true, true, false)),
+                           (String ((Ascii (true, true, true, true, false,
+                           true, true, false)), (String ((Ascii (true, true,
+                           false, false, true, true, true, false)), (String
+                           ((Ascii (true, false, true, false, false, true,
+                           true, false)), (String ((Ascii (true, true, true,
+                           true, true, false, true, false)), (String ((Ascii
+                           (false, true, true, true, false, true, true,
+                           false)), (String ((Ascii (true, true, true, true,
+                           false, true, true, false)), (String ((Ascii
+                           (false, false, true, false, false, true, true,
+                           false)), (String ((Ascii (true, false, true,
+                           false, false, true, true, false)), (String ((Ascii
+                           (true, true, true, true, true, false, true,
+                           false)), (String ((Ascii (false, true, true, true,
+                           false, true, true, false)), (String ((Ascii (true,
+                           false, false, false, false, true, true, false)),
+                           (String ((Ascii (true, false, true, true, false,
+                           true, true, false)), (String ((Ascii (true, false,
+                           true, false, false, true, true, false)),
+                           EmptyString))))))))))))))))))))))))))))))))))
+                      then (match v with
+                            | YBool b -> Ok (upd_compose c b)
+                            | _ ->
+                              Err (EConfig (String ((Ascii (true, true,
+                                false, false, false, true, true, false)),
+                                (String ((Ascii (true, true, true, true,
+                                false, true, true, false)), (String ((Ascii
+                                (true, false, true, true, false, true, true,
+                                false)), (String ((Ascii (false, false,
+                                false, false, true, true, true, false)),
+                                (String ((Ascii (true, true, true, true,
+                                false, true, true, false)), (String ((Ascii
+                                (true, true, false, false, true, true, true,
+                                false)), (String ((Ascii (true, false, true,
+                                false, false, true, true, false)), (String
+                                ((Ascii (true, true, true, true, true, false,
+                                true, false)), (String ((Ascii (false, true,
+                                true, true, false, true, true, false)),
+                                (String ((Ascii (true, true, true, true,
+                                false, true, true, false)), (String ((Ascii
+                                (false, false, true, false, false, true,
+                                true, false)), (String ((Ascii (true, false,
+                                true, false, false, true, true, false)),
+                                (String ((Ascii (true, true, true, true,
+                                true, false, true, false)), (String ((Ascii
+                                (false, true, true, true, false, true, true,
+                                false)), (String ((Ascii (true, false, false,
+                                false, false, true, true, false)), (String
+                                ((Ascii (true, false, true, true, false,
+                                true, true, false)), (String ((Ascii (true,
+                                false, true, false, false, true, true,
+                                false)),
+                                EmptyString))))))))))))))))))))))))))))))))))))
+                      else if eqb1 k (String ((Ascii (false, true, false,
+                                false, true, true, true, false)), (String
+                                ((Ascii (true, false, true, false, false,
+                                true, true, false)), (String ((Ascii (true,
+                                true, false, false, false, true, true,
+                                false)), (String ((Ascii (false, false, true,
+                                true, false, true, true, false)), (String
+                                ((Ascii (true, false, false, false, false,
+                                true, true, false)), (String ((Ascii (true,
+                                true, false, false, true, true, true,
+                                false)), (String ((Ascii (true, true, false,
+                                false, true, true, true, false)), (String
+                                ((Ascii (true, true, true, true, true, false,
+                                true, false)), (String ((Ascii (false, true,
+                                false, false, true, true, true, false)),
+                                (String ((Ascii (true, true, false, false,
+                                true, true, true, false)), (String ((Ascii
+                                (true, true, true, true, true, false, true,
+                                false)), (String ((Ascii (true, true, false,
+                                false, false, true, true, false)), (String
+                                ((Ascii (true, true, true, true, false, true,
+                                true, false)), (String ((Ascii (true, false,
+                                true, true, false, true, true, false)),
+                                (String ((Ascii (false, false, false, false,
+                                true, true, true, false)), (String ((Ascii
+                                (true, false, false, false, false, true,
+                                true, false)), (String ((Ascii (false, false,
+                                true, false, true, true, true, false)),
+                                (String ((Ascii (true, true, true, true,
+                                true, false, true, false)), (String ((Ascii
+                                (false, true, true, false, false, true, true,
+                                false)), (String ((Ascii (false, false, true,
+                                true, false, true, true, false)), (String
+                                ((Ascii (true, false, false, false, false,
+                                true, true, false)), (String ((Ascii (true,
+                                true, true, false, false, true, true,
+                                false)), (String ((Ascii (true, true, false,
+                                false, true, true, true, false)),
+                                EmptyString))))))))))))))))))))))))))))))))))))))))))))))
+                           then (match v with
+                                 | YSeq l ->
+                                   (match all_strings l with
+                                    | Some fs ->
+                                      Ok
+                                        (if existsb is_flag_name fs
+                                         then upd_dots c true
+                                         else c)
+                                    | None ->
+                                      Err (EConfig (String ((Ascii (true,
+                                        true, false, false, false, true,
+                                        true, false)), (String ((Ascii (true,
+                                        true, true, true, false, true, true,
+                                        false)), (String ((Ascii (true,
+                                        false, true, true, false, true, true,
+                                        false)), (String ((Ascii (false,
+                                        false, false, false, true, true,
+                                        true, false)), (String ((Ascii (true,
+                                        false, false, false, false, true,
+                                        true, false)), (String ((Ascii
+                                        (false, false, true, false, true,
+                                        true, true, false)), (String ((Ascii
+                                        (false, false, false, false, false,
+                                        true, false, false)), (String ((Ascii
+                                        (false, true, true, false, false,
+                                        true, true, false)), (String ((Ascii
+                                        (false, false, true, true, false,
+                                        true, true, false)), (String ((Ascii
+                                        (true, false, false, false, false,
+                                        true, true, false)), (String ((Ascii
+                                        (true, true, true, false, false,
+                                        true, true, false)), (String ((Ascii
+                                        (false, false, false, false, false,
+                                        true, false, false)), (String ((Ascii
+                                        (true, false, true, false, false,
+                                        true, true, false)), (String ((Ascii
+                                        (false, true, true, true, false,
+                                        true, true, false)), (String ((Ascii
+                                        (false, false, true, false, true,
+                                        true, true, false)), (String ((Ascii
+                                        (false, true, false, false, true,
+                                        true, true, false)), (String ((Ascii
+                                        (true, false, false, true, true,
+                                        true, true, false)),
+                                        EmptyString))))))))))))))))))))))))))))))))))))
+                                 | _ ->
+                                   Err (EConfig (String ((Ascii (false, true,
+                                     false, false, true, true, true, false)),
+                                     (String ((Ascii (true, false, true,
+                                     false, false, true, true, false)),
+                                     (String ((Ascii (true, true, false,
+                                     false, false, true, true, false)),
+                                     (String ((Ascii (false, false, true,
+                                     true, false, true, true, false)),
+                                     (String ((Ascii (true, false, false,
+                                     false, false, true, true, false)),
+                                     (String ((Ascii (true, true, false,
+                                     false, true, true, true, false)),
+                                     (String ((Ascii (true, true, false,
+                                     false, true, true, true, false)),
+                                     (String ((Ascii (true, true, true, true,
+                                     true, false, true, false)), (String
+                                     ((Ascii (false, true, false, false,
+                                     true, true, true, false)), (String
+                                     ((Ascii (true, true, false, false, true,
+                                     true, true, false)), (String ((Ascii
+                                     (true, true, true, true, true, false,
+                                     true, false)), (String ((Ascii (true,
+                                     true, false, false, false, true, true,
+                                     false)), (String ((Ascii (true, true,
+                                     true, true, false, true, true, false)),
+                                     (String ((Ascii (true, false, true,
+                                     true, false, true, true, false)),
+                                     (String ((Ascii (false, false, false,
+                                     false, true, true, true, false)),
+                                     (String ((Ascii (true, false, false,
+                                     false, false, true, true, false)),
+                                     (String ((Ascii (false, false, true,
+                                     false, true, true, true, false)),
+                                     (String ((Ascii (true, true, true, true,
+                                     true, false, true, false)), (String
+                                     ((Ascii (false, true, true, false,
+                                     false, true, true, false)), (String
+                                     ((Ascii (false, false, true, true,
+                                     false, true, true, false)), (String
+                                     ((Ascii (true, false, false, false,
+                                     false, true, true, false)), (String
+                                     ((Ascii (true, true, true, false, false,
+                                     true, true, false)), (String ((Ascii
+                                     (true, true, false, false, true, true,
+                                     true, false)),
+                                     EmptyString))))))))))))))))))))))))))))))))))))))))))))))))
+                           else Ok c
+
+(** val compile : (string -> bool) -> config -> config res **)
+
+let compile compiles c =
+  if forallb compiles c.cf_reported
+  then Ok (upd_compiled c c.cf_reported)
+  else Err (EConfig (String ((Ascii (false, false, false, false, true, true,
+         true, false)), (String ((Ascii (true, false, false, false, false,
+         true, true, false)), (String ((Ascii (false, false, true, false,
+         true, true, true, false)), (String ((Ascii (false, false, true,
+         false, true, true, true, false)), (String ((Ascii (true, false,
+         true, false, false, true, true, false)), (String ((Ascii (false,
+         true, false, false, true, true, true, false)), (String ((Ascii
+         (false, true, true, true, false, true, true, false)), (String
+         ((Ascii (false, false, false, false, false, true, false, false)),
+         (String ((Ascii (false, false, true, false, false, true, true,
+         false)), (String ((Ascii (true, true, true, true, false, true, true,
+         false)), (String ((Ascii (true, false, true, false, false, true,
+         true, false)), (String ((Ascii (true, true, false, false, true,
+         true, true, false)), (String ((Ascii (false, false, false, false,
+         false, true, false, false)), (String ((Ascii (false, true, true,
+         true, false, true, true, false)), (String ((Ascii (true, true, true,
+         true, false, true, true, false)), (String ((Ascii (false, false,
+         true, false, true, true, true, false)), (String ((Ascii (false,
+         false, false, false, false, true, false, false)), (String ((Ascii
+         (true, true, false, false, false, true, true, false)), (String
+         ((Ascii (true, true, true, true, false, true, true, false)), (String
+         ((Ascii (true, false, true, true, false, true, true, false)),
+         (String ((Ascii (false, false, false, false, true, true, true,
+         false)), (String ((Ascii (true, false, false, true, false, true,
+         true, false)), (String ((Ascii (false, false, true, true, false,
+         true, true, false)), (String ((Ascii (true, false, true, false,
+         false, true, true, false)),
+         EmptyString)))))))))))))))))))))))))))))))))))))))))))))))))
+
+(** val set_options :
+    config -> string -> (string * yaml) list -> config res **)
+
+let rec set_options c cfg_path = function
+| [] -> Ok c
+| p :: es' ->
+  let (k, v) = p in
+  bind (set_option c cfg_path k v) (fun c' -> set_options c' cfg_path es')
+
+(** val load_from_file :
+    (string -> bool) -> config -> string -> (string * yaml) list -> config res **)
+
+let load_from_file compiles c file es =
+  bind (set_options c (path_push c.cf_inv file) es) (fun c' ->
+    compile compiles c')
+
+(** val from_dict :
+    (string -> bool) -> string -> (string * yaml) list -> config res **)
+
+let from_dict compiles inv es =
+  bind (config_new (Some inv) None None None) (fun c ->
+    bind
+      (set_options c
+        (path_push inv (String ((Ascii (false, false, true, false, false,
+          true, true, false)), (String ((Ascii (true, false, true, false,
+          true, true, true, false)), (String ((Ascii (true, false, true,
+          true, false, true, true, false)), (String ((Ascii (true, false,
+          true, true, false, true, true, false)), (String ((Ascii (true,
+          false, false, true, true, true, true, false)),
+          EmptyString))))))))))) es) (fun c' -> compile compiles c'))
+
+(** val set_regexp :
+    (string -> bool) -> config -> string list -> config res **)
+
+let set_regexp compiles c ps =
+  compile compiles (upd_reported c ps)
+
+(** val is_class_ignored :
+    (string -> string -> bool) -> config -> string -> bool **)
+
+let is_class_ignored matches c cls =
+  (&&) c.cf_ignore (existsb (fun p -> matches p cls) c.cf_compiled)
+
+type cop =
+| ONew of string option * string option * string option * bool option
+| OLoad of string * (string * yaml) list
+| ODict of string * (string * yaml) list
+| OSetRegexp of string list
+| OSetIgnore of bool
+| OSetCompose of bool
+| OSetFlag
+| OUnsetFlag
+| OClearFlags
+
+(** val cfg_step : (string -> bool) -> config -> cop -> config * bool **)
+
+let cfg_step compiles c o =
+  let keep = fun r -> match r with
+                      | Ok c' -> (c', true)
+                      | _ -> (c, false) in
+  (match o with
+   | ONew (i, n0, cl, g) -> keep (config_new i n0 cl g)
+   | OLoad (f, es) -> keep (load_from_file compiles c f es)
+   | ODict (i, es) -> keep (from_dict compiles i es)
+   | OSetRegexp ps -> keep (set_regexp compiles c ps)
+   | OSetIgnore b -> ((upd_ignore c b), true)
+   | OSetCompose b -> ((upd_compose c b), true)
+   | OSetFlag -> ((upd_dots c true), true)
+   | _ -> ((upd_dots c false), true))
+
+type pyobj =
+| PyNone
+| PyBool of bool
+| PyInt of z
+| PyFloat of ftoken
+| PyStr of string
+| PyList of pyobj list
+| PyDict of (pyobj * pyobj) list
+
+(** val py_int_of : pyobj -> z option **)
+
+let py_int_of = function
+| PyBool b -> if b then Some (Zpos XH) else Some Z0
+| PyInt z0 -> Some z0
+| _ -> None
+
+(** val py_key_eqb : pyobj -> pyobj -> bool **)
+
+let py_key_eqb a b =
+  match py_int_of a with
+  | Some x ->
+    (match py_int_of b with
+     | Some y -> Z.eqb x y
+     | None ->
+       (match a with
+        | PyNone -> (match b with
+                     | PyNone -> true
+                     | _ -> false)
+        | PyFloat x0 ->
+          (match b with
+           | PyFloat y ->
+             (match x0.fk with
+              | FNan -> false
+              | _ -> ftoken_eqb x0 y)
+           | _ -> false)
+        | PyStr x0 -> (match b with
+                       | PyStr y -> eqb1 x0 y
+                       | _ -> false)
+        | _ -> false))
+  | None ->
+    (match a with
+     | PyNone -> (match b with
+                  | PyNone -> true
+                  | _ -> false)
+     | PyFloat x ->
+       (match b with
+        | PyFloat y -> (match x.fk with
+                        | FNan -> false
+                        | _ -> ftoken_eqb x y)
+        | _ -> false)
+     | PyStr x -> (match b with
+                   | PyStr y -> eqb1 x y
+                   | _ -> false)
+     | _ -> false)
+
+(** val py_hashable : pyobj -> bool **)
+
+let py_hashable = function
+| PyList _ -> false
+| PyDict _ -> false
+| _ -> true
+
+(** val py_set_item :
+    (pyobj * pyobj) list -> pyobj -> pyobj -> (pyobj * pyobj) list **)
+
+let rec py_set_item d k v =
+  match d with
+  | [] -> (k, v) :: []
+  | p :: d' ->
+    let (k', v') = p in
+    if py_key_eqb k' k
+    then (k', v) :: d'
+    else (k', v') :: (py_set_item d' k v)
+
+type 'a pyres =
+| PyOk of 'a
+| PyTypeError
+| PyPanic
+
+(** val pybind : 'a1 pyres -> ('a1 -> 'a2 pyres) -> 'a2 pyres **)
+
+let pybind r f =
+  match r with
+  | PyOk a -> f a
+  | PyTypeError -> PyTypeError
+  | PyPanic -> PyPanic
+
+(** val as_py_obj : value -> pyobj pyres **)
+
+let rec as_py_obj = function
+| VNull -> PyOk PyNone
+| VBool b -> PyOk (PyBool b)
+| VStr s -> PyOk (PyStr s)
+| VLit s -> PyOk (PyStr s)
+| VNum n0 ->
+  (match n0 with
+   | NInt z0 -> PyOk (PyInt z0)
+   | NFloat f -> PyOk (PyFloat f))
+| VMap es ->
+  pybind
+    (let rec go es0 acc0 =
+       match es0 with
+       | [] -> PyOk acc0
+       | e :: es' ->
+         let (p, _) = e in
+         let (p0, _) = p in
+         let (k, x) = p0 in
+         pybind (as_py_obj k) (fun pk ->
+           pybind (as_py_obj x) (fun pv ->
+             if py_hashable pk
+             then go es' (py_set_item acc0 pk pv)
+             else PyTypeError))
+     in go es []) (fun d -> PyOk (PyDict d))
+| VSeq l ->
+  pybind
+    (let rec go = function
+     | [] -> PyOk []
+     | x :: xs ->
+       pybind (as_py_obj x) (fun y ->
+         pybind (go xs) (fun ys -> PyOk (y :: ys)))
+     in go l) (fun l' -> PyOk (PyList l'))
+| VList _ -> PyPanic
+
 (** val run_fuel : nat **)
 
 let run_fuel =
@@ -7772,3 +9509,1975 @@ let run_line4 line =
                  false, true, true, false, false)), EmptyString))))))))))))
             then append id (append tab (run_value2 ts))
             else run_line3 line)
+
+(** val p_opt_str : string -> string option option **)
+
+let p_opt_str = function
+| EmptyString -> None
+| String (a, h) ->
+  let Ascii (b, b0, b1, b2, b3, b4, b5, b6) = a in
+  if b
+  then if b0
+       then if b1
+            then None
+            else if b2
+                 then None
+                 else if b3
+                      then if b4
+                           then None
+                           else if b5
+                                then if b6
+                                     then None
+                                     else option_map (fun x -> Some x)
+                                            (unhex h)
+                                else None
+                      else None
+       else if b1
+            then if b2
+                 then if b3
+                      then None
+                      else if b4
+                           then if b5
+                                then None
+                                else if b6
+                                     then None
+                                     else (match h with
+                                           | EmptyString -> Some None
+                                           | String (_, _) -> None)
+                           else None
+                 else None
+            else None
+  else None
+
+(** val p_opt_bool : string -> bool option option **)
+
+let p_opt_bool t =
+  if eqb1 t (String ((Ascii (true, false, true, true, false, true, false,
+       false)), EmptyString))
+  then Some None
+  else option_map (fun x -> Some x) (p_bool t)
+
+(** val p_entries :
+    nat -> string list -> ((string * yaml) list * string list) option **)
+
+let rec p_entries n0 ts =
+  match n0 with
+  | O -> Some ([], ts)
+  | S n' ->
+    (match ts with
+     | [] -> None
+     | s :: ts1 ->
+       (match s with
+        | EmptyString -> None
+        | String (a, h) ->
+          let Ascii (b, b0, b1, b2, b3, b4, b5, b6) = a in
+          if b
+          then if b0
+               then if b1
+                    then None
+                    else if b2
+                         then None
+                         else if b3
+                              then if b4
+                                   then None
+                                   else if b5
+                                        then if b6
+                                             then None
+                                             else (match unhex h with
+                                                   | Some k ->
+                                                     (match p_yaml (S
+                                                              (length ts1))
+                                                              ts1 with
+                                                      | Some p ->
+                                                        let (y, ts2) = p in
+                                                        (match p_entries n'
+                                                                 ts2 with
+                                                         | Some p0 ->
+                                                           let (es, ts3) = p0
+                                                           in
+                                                           Some (((k,
+                                                           y) :: es), ts3)
+                                                         | None -> None)
+                                                      | None -> None)
+                                                   | None -> None)
+                                        else None
+                              else None
+               else None
+          else None))
+
+(** val p_counted :
+    (nat -> string list -> ('a1 * string list) option) -> string list ->
+    ('a1 * string list) option **)
+
+let p_counted p = function
+| [] -> None
+| n0 :: ts' ->
+  (match nat_of_string n0 with
+   | Some n1 -> p n1 ts'
+   | None -> None)
+
+(** val p_ops : nat -> string list -> cop list option **)
+
+let rec p_ops f ts =
+  match f with
+  | O -> None
+  | S f' ->
+    (match ts with
+     | [] -> Some []
+     | op :: ts1 ->
+       if eqb1 op (String ((Ascii (false, true, true, true, false, true,
+            true, false)), (String ((Ascii (true, false, true, false, false,
+            true, true, false)), (String ((Ascii (true, true, true, false,
+            true, true, true, false)), EmptyString))))))
+       then (match ts1 with
+             | [] -> None
+             | a :: l ->
+               (match l with
+                | [] -> None
+                | b :: l0 ->
+                  (match l0 with
+                   | [] -> None
+                   | c :: l1 ->
+                     (match l1 with
+                      | [] -> None
+                      | d :: ts2 ->
+                        (match p_opt_str a with
+                         | Some a0 ->
+                           (match p_opt_str b with
+                            | Some b0 ->
+                              (match p_opt_str c with
+                               | Some c0 ->
+                                 (match p_opt_bool d with
+                                  | Some d0 ->
+                                    (match p_ops f' ts2 with
+                                     | Some r ->
+                                       Some ((ONew (a0, b0, c0, d0)) :: r)
+                                     | None -> None)
+                                  | None -> None)
+                               | None -> None)
+                            | None -> None)
+                         | None -> None)))))
+       else if eqb1 op (String ((Ascii (false, false, true, true, false,
+                 true, true, false)), (String ((Ascii (true, true, true,
+                 true, false, true, true, false)), (String ((Ascii (true,
+                 false, false, false, false, true, true, false)), (String
+                 ((Ascii (false, false, true, false, false, true, true,
+                 false)), EmptyString))))))))
+            then (match ts1 with
+                  | [] -> None
+                  | s :: ts2 ->
+                    (match s with
+                     | EmptyString -> None
+                     | String (a, h) ->
+                       let Ascii (b, b0, b1, b2, b3, b4, b5, b6) = a in
+                       if b
+                       then if b0
+                            then if b1
+                                 then None
+                                 else if b2
+                                      then None
+                                      else if b3
+                                           then if b4
+                                                then None
+                                                else if b5
+                                                     then if b6
+                                                          then None
+                                                          else (match 
+                                                                unhex h with
+                                                                | Some file ->
+                                                                  (match 
+                                                                   p_counted
+                                                                    p_entries
+                                                                    ts2 with
+                                                                   | Some p ->
+                                                                    let (
+                                                                    es, ts3) =
+                                                                    p
+                                                                    in
+                                                                    option_map
+                                                                    (fun x ->
+                                                                    (OLoad
+                                                                    (file,
+                                                                    es)) :: x)
+                                                                    (p_ops f'
+                                                                    ts3)
+                                                                   | None ->
+                                                                    None)
+                                                                | None -> None)
+                                                     else None
+                                           else None
+                            else None
+                       else None))
+            else if eqb1 op (String ((Ascii (false, false, true, false,
+                      false, true, true, false)), (String ((Ascii (true,
+                      false, false, true, false, true, true, false)), (String
+                      ((Ascii (true, true, false, false, false, true, true,
+                      false)), (String ((Ascii (false, false, true, false,
+                      true, true, true, false)), EmptyString))))))))
+                 then (match ts1 with
+                       | [] -> None
+                       | s :: ts2 ->
+                         (match s with
+                          | EmptyString -> None
+                          | String (a, h) ->
+                            let Ascii (b, b0, b1, b2, b3, b4, b5, b6) = a in
+                            if b
+                            then if b0
+                                 then if b1
+                                      then None
+                                      else if b2
+                                           then None
+                                           else if b3
+                                                then if b4
+                                                     then None
+                                                     else if b5
+                                                          then if b6
+                                                               then None
+                                                               else (match 
+                                                                    unhex h with
+                                                                    | Some inv ->
+                                                                    (match 
+                                                                    p_counted
+                                                                    p_entries
+                                                                    ts2 with
+                                                                    | Some p ->
+                                                                    let (
+                                                                    es, ts3) =
+                                                                    p
+                                                                    in
+                                                                    option_map
+                                                                    (fun x ->
+                                                                    (ODict
+                                                                    (inv,
+                                                                    es)) :: x)
+                                                                    (p_ops f'
+                                                                    ts3)
+                                                                    | None ->
+                                                                    None)
+                                                                    | None ->
+                                                                    None)
+                                                          else None
+                                                else None
+                                 else None
+                            else None))
+                 else if eqb1 op (String ((Ascii (false, true, false, false,
+                           true, true, true, false)), (String ((Ascii (true,
+                           false, true, false, false, true, true, false)),
+                           (String ((Ascii (true, true, true, false, false,
+                           true, true, false)), (String ((Ascii (true, false,
+                           true, false, false, true, true, false)), (String
+                           ((Ascii (false, false, false, true, true, true,
+                           true, false)), (String ((Ascii (false, false,
+                           false, false, true, true, true, false)),
+                           EmptyString))))))))))))
+                      then (match p_counted p_strs ts1 with
+                            | Some p ->
+                              let (ps, ts2) = p in
+                              option_map (fun x -> (OSetRegexp ps) :: x)
+                                (p_ops f' ts2)
+                            | None -> None)
+                      else if eqb1 op (String ((Ascii (true, false, false,
+                                true, false, true, true, false)), (String
+                                ((Ascii (true, true, true, false, false,
+                                true, true, false)), (String ((Ascii (false,
+                                true, true, true, false, true, true, false)),
+                                (String ((Ascii (true, true, true, true,
+                                false, true, true, false)), (String ((Ascii
+                                (false, true, false, false, true, true, true,
+                                false)), (String ((Ascii (true, false, true,
+                                false, false, true, true, false)),
+                                EmptyString))))))))))))
+                           then (match ts1 with
+                                 | [] -> None
+                                 | b :: ts2 ->
+                                   (match p_bool b with
+                                    | Some b0 ->
+                                      option_map (fun x -> (OSetIgnore
+                                        b0) :: x) (p_ops f' ts2)
+                                    | None -> None))
+                           else if eqb1 op (String ((Ascii (true, true,
+                                     false, false, false, true, true,
+                                     false)), (String ((Ascii (true, true,
+                                     true, true, false, true, true, false)),
+                                     (String ((Ascii (true, false, true,
+                                     true, false, true, true, false)),
+                                     (String ((Ascii (false, false, false,
+                                     false, true, true, true, false)),
+                                     (String ((Ascii (true, true, true, true,
+                                     false, true, true, false)), (String
+                                     ((Ascii (true, true, false, false, true,
+                                     true, true, false)), (String ((Ascii
+                                     (true, false, true, false, false, true,
+                                     true, false)), EmptyString))))))))))))))
+                                then (match ts1 with
+                                      | [] -> None
+                                      | b :: ts2 ->
+                                        (match p_bool b with
+                                         | Some b0 ->
+                                           option_map (fun x -> (OSetCompose
+                                             b0) :: x) (p_ops f' ts2)
+                                         | None -> None))
+                                else if eqb1 op (String ((Ascii (true, true,
+                                          false, false, true, true, true,
+                                          false)), (String ((Ascii (true,
+                                          false, true, false, false, true,
+                                          true, false)), (String ((Ascii
+                                          (false, false, true, false, true,
+                                          true, true, false)), (String
+                                          ((Ascii (false, true, true, false,
+                                          false, true, true, false)), (String
+                                          ((Ascii (false, false, true, true,
+                                          false, true, true, false)), (String
+                                          ((Ascii (true, false, false, false,
+                                          false, true, true, false)), (String
+                                          ((Ascii (true, true, true, false,
+                                          false, true, true, false)),
+                                          EmptyString))))))))))))))
+                                     then option_map (fun x -> OSetFlag :: x)
+                                            (p_ops f' ts1)
+                                     else if eqb1 op (String ((Ascii (true,
+                                               false, true, false, true,
+                                               true, true, false)), (String
+                                               ((Ascii (false, true, true,
+                                               true, false, true, true,
+                                               false)), (String ((Ascii
+                                               (true, true, false, false,
+                                               true, true, true, false)),
+                                               (String ((Ascii (true, false,
+                                               true, false, false, true,
+                                               true, false)), (String ((Ascii
+                                               (false, false, true, false,
+                                               true, true, true, false)),
+                                               (String ((Ascii (false, true,
+                                               true, false, false, true,
+                                               true, false)), (String ((Ascii
+                                               (false, false, true, true,
+                                               false, true, true, false)),
+                                               (String ((Ascii (true, false,
+                                               false, false, false, true,
+                                               true, false)), (String ((Ascii
+                                               (true, true, true, false,
+                                               false, true, true, false)),
+                                               EmptyString))))))))))))))))))
+                                          then option_map (fun x ->
+                                                 OUnsetFlag :: x)
+                                                 (p_ops f' ts1)
+                                          else if eqb1 op (String ((Ascii
+                                                    (true, true, false,
+                                                    false, false, true, true,
+                                                    false)), (String ((Ascii
+                                                    (false, false, true,
+                                                    true, false, true, true,
+                                                    false)), (String ((Ascii
+                                                    (true, false, true,
+                                                    false, false, true, true,
+                                                    false)), (String ((Ascii
+                                                    (true, false, false,
+                                                    false, false, true, true,
+                                                    false)), (String ((Ascii
+                                                    (false, true, false,
+                                                    false, true, true, true,
+                                                    false)), (String ((Ascii
+                                                    (false, true, true,
+                                                    false, false, true, true,
+                                                    false)), (String ((Ascii
+                                                    (false, false, true,
+                                                    true, false, true, true,
+                                                    false)), (String ((Ascii
+                                                    (true, false, false,
+                                                    false, false, true, true,
+                                                    false)), (String ((Ascii
+                                                    (true, true, true, false,
+                                                    false, true, true,
+                                                    false)), (String ((Ascii
+                                                    (true, true, false,
+                                                    false, true, true, true,
+                                                    false)),
+                                                    EmptyString))))))))))))))))))))
+                                               then option_map (fun x ->
+                                                      OClearFlags :: x)
+                                                      (p_ops f' ts1)
+                                               else None)
+
+(** val pair_up : string list -> (string * string) list **)
+
+let rec pair_up = function
+| [] -> []
+| a :: l0 -> (match l0 with
+              | [] -> []
+              | b :: l' -> (a, b) :: (pair_up l'))
+
+(** val tf : bool -> string **)
+
+let tf = function
+| true ->
+  String ((Ascii (false, false, true, false, true, false, true, false)),
+    EmptyString)
+| false ->
+  String ((Ascii (false, true, true, false, false, false, true, false)),
+    EmptyString)
+
+(** val canon_config :
+    (string -> string -> bool) -> string list -> config -> string **)
+
+let canon_config matches probes c =
+  append (hx c.cf_inv)
+    (append (String ((Ascii (false, false, false, false, false, true, false,
+      false)), EmptyString))
+      (append (hx c.cf_nodes)
+        (append (String ((Ascii (false, false, false, false, false, true,
+          false, false)), EmptyString))
+          (append (hx c.cf_classes)
+            (append (String ((Ascii (false, false, false, false, false, true,
+              false, false)), EmptyString))
+              (append (tf c.cf_ignore)
+                (append (tf c.cf_compose)
+                  (append (tf c.cf_dots)
+                    (append (String ((Ascii (false, false, false, false,
+                      false, true, false, false)), EmptyString))
+                      (append (canon_strs c.cf_reported)
+                        (append (String ((Ascii (false, false, false, false,
+                          false, true, false, false)), (String ((Ascii
+                          (false, true, false, false, false, false, true,
+                          false)), EmptyString))))
+                          (concat_str
+                            (map (fun n0 ->
+                              tf (is_class_ignored matches c n0)) probes)))))))))))))
+
+(** val default_config : config **)
+
+let default_config =
+  { cf_inv = EmptyString; cf_nodes = EmptyString; cf_classes = EmptyString;
+    cf_ignore = false; cf_compose = false; cf_reported = []; cf_compiled =
+    []; cf_dots = false }
+
+(** val run_config : string list -> string **)
+
+let run_config ts =
+  match p_counted p_strs ts with
+  | Some p ->
+    let (bad, ts1) = p in
+    (match p_counted p_strs ts1 with
+     | Some p0 ->
+       let (mflat, ts2) = p0 in
+       (match p_counted p_strs ts2 with
+        | Some p1 ->
+          let (probes, ts3) = p1 in
+          (match p_ops (S (length ts3)) ts3 with
+           | Some ops ->
+             let compiles = fun p2 -> negb (mem p2 bad) in
+             let mp = pair_up mflat in
+             let matches = fun p2 n0 ->
+               existsb (fun pat ->
+                 let (a, b) = pat in (&&) (eqb1 a p2) (eqb1 b n0)) mp
+             in
+             let go =
+               let rec go ops0 c started =
+                 match ops0 with
+                 | [] -> EmptyString
+                 | o :: ops' ->
+                   let (c', ok) = cfg_step compiles c o in
+                   let started' = (||) started ok in
+                   append
+                     (if ok
+                      then String ((Ascii (false, false, false, false, false,
+                             true, false, false)), (String ((Ascii (false,
+                             false, true, true, true, true, true, false)),
+                             (String ((Ascii (false, false, false, false,
+                             false, true, false, false)), (String ((Ascii
+                             (true, true, true, true, false, true, true,
+                             false)), (String ((Ascii (true, true, false,
+                             true, false, true, true, false)), (String
+                             ((Ascii (false, false, false, false, false,
+                             true, false, false)), EmptyString)))))))))))
+                      else String ((Ascii (false, false, false, false, false,
+                             true, false, false)), (String ((Ascii (false,
+                             false, true, true, true, true, true, false)),
+                             (String ((Ascii (false, false, false, false,
+                             false, true, false, false)), (String ((Ascii
+                             (true, false, true, false, false, true, true,
+                             false)), (String ((Ascii (false, true, false,
+                             false, true, true, true, false)), (String
+                             ((Ascii (false, true, false, false, true, true,
+                             true, false)), (String ((Ascii (false, false,
+                             false, false, false, true, false, false)),
+                             EmptyString))))))))))))))
+                     (append
+                       (if started'
+                        then canon_config matches probes c'
+                        else String ((Ascii (true, false, true, true, false,
+                               true, false, false)), EmptyString))
+                       (go ops' c' started'))
+               in go
+             in
+             append (String ((Ascii (true, true, true, true, false, true,
+               true, false)), (String ((Ascii (true, true, false, true,
+               false, true, true, false)), EmptyString))))
+               (go ops default_config false)
+           | None ->
+             String ((Ascii (false, true, false, false, false, true, true,
+               false)), (String ((Ascii (true, false, false, false, false,
+               true, true, false)), (String ((Ascii (false, false, true,
+               false, false, true, true, false)), (String ((Ascii (true,
+               true, false, false, false, true, true, false)), (String
+               ((Ascii (true, false, false, false, false, true, true,
+               false)), (String ((Ascii (true, true, false, false, true,
+               true, true, false)), (String ((Ascii (true, false, true,
+               false, false, true, true, false)), EmptyString))))))))))))))
+        | None ->
+          String ((Ascii (false, true, false, false, false, true, true,
+            false)), (String ((Ascii (true, false, false, false, false, true,
+            true, false)), (String ((Ascii (false, false, true, false, false,
+            true, true, false)), (String ((Ascii (true, true, false, false,
+            false, true, true, false)), (String ((Ascii (true, false, false,
+            false, false, true, true, false)), (String ((Ascii (true, true,
+            false, false, true, true, true, false)), (String ((Ascii (true,
+            false, true, false, false, true, true, false)),
+            EmptyString))))))))))))))
+     | None ->
+       String ((Ascii (false, true, false, false, false, true, true, false)),
+         (String ((Ascii (true, false, false, false, false, true, true,
+         false)), (String ((Ascii (false, false, true, false, false, true,
+         true, false)), (String ((Ascii (true, true, false, false, false,
+         true, true, false)), (String ((Ascii (true, false, false, false,
+         false, true, true, false)), (String ((Ascii (true, true, false,
+         false, true, true, true, false)), (String ((Ascii (true, false,
+         true, false, false, true, true, false)), EmptyString))))))))))))))
+  | None ->
+    String ((Ascii (false, true, false, false, false, true, true, false)),
+      (String ((Ascii (true, false, false, false, false, true, true, false)),
+      (String ((Ascii (false, false, true, false, false, true, true, false)),
+      (String ((Ascii (true, true, false, false, false, true, true, false)),
+      (String ((Ascii (true, false, false, false, false, true, true, false)),
+      (String ((Ascii (true, true, false, false, true, true, true, false)),
+      (String ((Ascii (true, false, true, false, false, true, true, false)),
+      EmptyString)))))))))))))
+
+(** val run_line5 : string -> string **)
+
+let run_line5 line =
+  match words line with
+  | [] ->
+    String ((Ascii (false, true, false, false, false, true, true, false)),
+      (String ((Ascii (true, false, false, false, false, true, true, false)),
+      (String ((Ascii (false, false, true, false, false, true, true, false)),
+      (String ((Ascii (false, false, true, true, false, true, true, false)),
+      (String ((Ascii (true, false, false, true, false, true, true, false)),
+      (String ((Ascii (false, true, true, true, false, true, true, false)),
+      (String ((Ascii (true, false, true, false, false, true, true, false)),
+      EmptyString)))))))))))))
+  | id :: l ->
+    (match l with
+     | [] ->
+       String ((Ascii (false, true, false, false, false, true, true, false)),
+         (String ((Ascii (true, false, false, false, false, true, true,
+         false)), (String ((Ascii (false, false, true, false, false, true,
+         true, false)), (String ((Ascii (false, false, true, true, false,
+         true, true, false)), (String ((Ascii (true, false, false, true,
+         false, true, true, false)), (String ((Ascii (false, true, true,
+         true, false, true, true, false)), (String ((Ascii (true, false,
+         true, false, false, true, true, false)), EmptyString)))))))))))))
+     | mode :: ts ->
+       if eqb1 mode (String ((Ascii (true, true, false, false, false, true,
+            true, false)), (String ((Ascii (true, true, true, true, false,
+            true, true, false)), (String ((Ascii (false, true, true, true,
+            false, true, true, false)), (String ((Ascii (false, true, true,
+            false, false, true, true, false)), (String ((Ascii (true, false,
+            false, true, false, true, true, false)), (String ((Ascii (true,
+            true, true, false, false, true, true, false)),
+            EmptyString))))))))))))
+       then append id (append tab (run_config ts))
+       else run_line4 line)
+
+(** val canon_py : pyobj -> string **)
+
+let rec canon_py = function
+| PyNone ->
+  String ((Ascii (false, true, true, true, false, false, true, false)),
+    EmptyString)
+| PyBool b ->
+  if b
+  then String ((Ascii (false, false, true, false, true, false, true, false)),
+         EmptyString)
+  else String ((Ascii (false, true, true, false, false, false, true, false)),
+         EmptyString)
+| PyInt z0 ->
+  append (String ((Ascii (true, false, false, true, false, false, true,
+    false)), EmptyString)) (z_to_string z0)
+| PyFloat _ ->
+  String ((Ascii (false, false, true, false, false, false, true, false)),
+    (String ((Ascii (true, true, true, true, true, true, false, false)),
+    EmptyString)))
+| PyStr s ->
+  append (String ((Ascii (true, false, false, false, true, false, true,
+    false)), EmptyString)) (hex s)
+| PyList l ->
+  append
+    (append (String ((Ascii (false, false, true, true, false, false, true,
+      false)), EmptyString)) (nat_to_string (length l)))
+    (let rec go = function
+     | [] -> EmptyString
+     | x :: xs ->
+       append (String ((Ascii (false, false, false, false, false, true,
+         false, false)), EmptyString)) (append (canon_py x) (go xs))
+     in go l)
+| PyDict es ->
+  append
+    (append (String ((Ascii (true, false, true, true, false, false, true,
+      false)), EmptyString)) (nat_to_string (length es)))
+    (let rec go = function
+     | [] -> EmptyString
+     | p :: es' ->
+       let (k, x) = p in
+       append (String ((Ascii (false, false, false, false, false, true,
+         false, false)), EmptyString))
+         (append (canon_py k)
+           (append (String ((Ascii (false, false, false, false, false, true,
+             false, false)), EmptyString)) (append (canon_py x) (go es'))))
+     in go es)
+
+(** val run_pynode : string list -> string **)
+
+let run_pynode = function
+| [] ->
+  String ((Ascii (false, true, false, false, false, true, true, false)),
+    (String ((Ascii (true, false, false, false, false, true, true, false)),
+    (String ((Ascii (false, false, true, false, false, true, true, false)),
+    (String ((Ascii (true, true, false, false, false, true, true, false)),
+    (String ((Ascii (true, false, false, false, false, true, true, false)),
+    (String ((Ascii (true, true, false, false, true, true, true, false)),
+    (String ((Ascii (true, false, true, false, false, true, true, false)),
+    EmptyString)))))))))))))
+| ig :: l ->
+  (match l with
+   | [] ->
+     String ((Ascii (false, true, false, false, false, true, true, false)),
+       (String ((Ascii (true, false, false, false, false, true, true,
+       false)), (String ((Ascii (false, false, true, false, false, true,
+       true, false)), (String ((Ascii (true, true, false, false, false, true,
+       true, false)), (String ((Ascii (true, false, false, false, false,
+       true, true, false)), (String ((Ascii (true, true, false, false, true,
+       true, true, false)), (String ((Ascii (true, false, true, false, false,
+       true, true, false)), EmptyString)))))))))))))
+   | co :: l0 ->
+     (match l0 with
+      | [] ->
+        String ((Ascii (false, true, false, false, false, true, true,
+          false)), (String ((Ascii (true, false, false, false, false, true,
+          true, false)), (String ((Ascii (false, false, true, false, false,
+          true, true, false)), (String ((Ascii (true, true, false, false,
+          false, true, true, false)), (String ((Ascii (true, false, false,
+          false, false, true, true, false)), (String ((Ascii (true, true,
+          false, false, true, true, true, false)), (String ((Ascii (true,
+          false, true, false, false, true, true, false)),
+          EmptyString)))))))))))))
+      | dots :: ts1 ->
+        (match p_bool ig with
+         | Some ig0 ->
+           (match p_bool co with
+            | Some co0 ->
+              (match p_bool dots with
+               | Some dots0 ->
+                 (match p_counted p_strs ts1 with
+                  | Some p ->
+                    let (_, ts2) = p in
+                    (match p_counted p_strs ts2 with
+                     | Some p0 ->
+                       let (matches, ts3) = p0 in
+                       (match p_count_files ts3 with
+                        | Some p1 ->
+                          let (cfiles, ts4) = p1 in
+                          (match p_count_files ts4 with
+                           | Some p2 ->
+                             let (nfiles, l1) = p2 in
+                             (match l1 with
+                              | [] ->
+                                String ((Ascii (false, true, false, false,
+                                  false, true, true, false)), (String ((Ascii
+                                  (true, false, false, false, false, true,
+                                  true, false)), (String ((Ascii (false,
+                                  false, true, false, false, true, true,
+                                  false)), (String ((Ascii (true, true,
+                                  false, false, false, true, true, false)),
+                                  (String ((Ascii (true, false, false, false,
+                                  false, true, true, false)), (String ((Ascii
+                                  (true, true, false, false, true, true,
+                                  true, false)), (String ((Ascii (true,
+                                  false, true, false, false, true, true,
+                                  false)), EmptyString)))))))))))))
+                              | _ :: l2 ->
+                                (match l2 with
+                                 | [] ->
+                                   String ((Ascii (false, true, false, false,
+                                     false, true, true, false)), (String
+                                     ((Ascii (true, false, false, false,
+                                     false, true, true, false)), (String
+                                     ((Ascii (false, false, true, false,
+                                     false, true, true, false)), (String
+                                     ((Ascii (true, true, false, false,
+                                     false, true, true, false)), (String
+                                     ((Ascii (true, false, false, false,
+                                     false, true, true, false)), (String
+                                     ((Ascii (true, true, false, false, true,
+                                     true, true, false)), (String ((Ascii
+                                     (true, false, true, false, false, true,
+                                     true, false)), EmptyString)))))))))))))
+                                 | s :: l3 ->
+                                   (match s with
+                                    | EmptyString ->
+                                      String ((Ascii (false, true, false,
+                                        false, false, true, true, false)),
+                                        (String ((Ascii (true, false, false,
+                                        false, false, true, true, false)),
+                                        (String ((Ascii (false, false, true,
+                                        false, false, true, true, false)),
+                                        (String ((Ascii (true, true, false,
+                                        false, false, true, true, false)),
+                                        (String ((Ascii (true, false, false,
+                                        false, false, true, true, false)),
+                                        (String ((Ascii (true, true, false,
+                                        false, true, true, true, false)),
+                                        (String ((Ascii (true, false, true,
+                                        false, false, true, true, false)),
+                                        EmptyString)))))))))))))
+                                    | String (a, h) ->
+                                      let Ascii (b, b0, b1, b2, b3, b4, b5, b6) =
+                                        a
+                                      in
+                                      if b
+                                      then if b0
+                                           then if b1
+                                                then String ((Ascii (false,
+                                                       true, false, false,
+                                                       false, true, true,
+                                                       false)), (String
+                                                       ((Ascii (true, false,
+                                                       false, false, false,
+                                                       true, true, false)),
+                                                       (String ((Ascii
+                                                       (false, false, true,
+                                                       false, false, true,
+                                                       true, false)), (String
+                                                       ((Ascii (true, true,
+                                                       false, false, false,
+                                                       true, true, false)),
+                                                       (String ((Ascii (true,
+                                                       false, false, false,
+                                                       false, true, true,
+                                                       false)), (String
+                                                       ((Ascii (true, true,
+                                                       false, false, true,
+                                                       true, true, false)),
+                                                       (String ((Ascii (true,
+                                                       false, true, false,
+                                                       false, true, true,
+                                                       false)),
+                                                       EmptyString)))))))))))))
+                                                else if b2
+                                                     then String ((Ascii
+                                                            (false, true,
+                                                            false, false,
+                                                            false, true,
+                                                            true, false)),
+                                                            (String ((Ascii
+                                                            (true, false,
+                                                            false, false,
+                                                            false, true,
+                                                            true, false)),
+                                                            (String ((Ascii
+                                                            (false, false,
+                                                            true, false,
+                                                            false, true,
+                                                            true, false)),
+                                                            (String ((Ascii
+                                                            (true, true,
+                                                            false, false,
+                                                            false, true,
+                                                            true, false)),
+                                                            (String ((Ascii
+                                                            (true, false,
+                                                            false, false,
+                                                            false, true,
+                                                            true, false)),
+                                                            (String ((Ascii
+                                                            (true, true,
+                                                            false, false,
+                                                            true, true, true,
+                                                            false)), (String
+                                                            ((Ascii (true,
+                                                            false, true,
+                                                            false, false,
+                                                            true, true,
+                                                            false)),
+                                                            EmptyString)))))))))))))
+                                                     else if b3
+                                                          then if b4
+                                                               then String
+                                                                    ((Ascii
+                                                                    (false,
+                                                                    true,
+                                                                    false,
+                                                                    false,
+                                                                    false,
+                                                                    true,
+                                                                    true,
+                                                                    false)),
+                                                                    (String
+                                                                    ((Ascii
+                                                                    (true,
+                                                                    false,
+                                                                    false,
+                                                                    false,
+                                                                    false,
+                                                                    true,
+                                                                    true,
+                                                                    false)),
+                                                                    (String
+                                                                    ((Ascii
+                                                                    (false,
+                                                                    false,
+                                                                    true,
+                                                                    false,
+                                                                    false,
+                                                                    true,
+                                                                    true,
+                                                                    false)),
+                                                                    (String
+                                                                    ((Ascii
+                                                                    (true,
+                                                                    true,
+                                                                    false,
+                                                                    false,
+                                                                    false,
+                                                                    true,
+                                                                    true,
+                                                                    false)),
+                                                                    (String
+                                                                    ((Ascii
+                                                                    (true,
+                                                                    false,
+                                                                    false,
+                                                                    false,
+                                                                    false,
+                                                                    true,
+                                                                    true,
+                                                                    false)),
+                                                                    (String
+                                                                    ((Ascii
+                                                                    (true,
+                                                                    true,
+                                                                    false,
+                                                                    false,
+                                                                    true,
+                                                                    true,
+                                                                    true,
+                                                                    false)),
+                                                                    (String
+                                                                    ((Ascii
+                                                                    (true,
+                                                                    false,
+                                                                    true,
+                                                                    false,
+                                                                    false,
+                                                                    true,
+                                                                    true,
+                                                                    false)),
+                                                                    EmptyString)))))))))))))
+                                                               else if b5
+                                                                    then 
+                                                                    if b6
+                                                                    then 
+                                                                    String
+                                                                    ((Ascii
+                                                                    (false,
+                                                                    true,
+                                                                    false,
+                                                                    false,
+                                                                    false,
+                                                                    true,
+                                                                    true,
+                                                                    false)),
+                                                                    (String
+                                                                    ((Ascii
+                                                                    (true,
+                                                                    false,
+                                                                    false,
+                                                                    false,
+                                                                    false,
+                                                                    true,
+                                                                    true,
+                                                                    false)),
+                                                                    (String
+                                                                    ((Ascii
+                                                                    (false,
+                                                                    false,
+                                                                    true,
+                                                                    false,
+                                                                    false,
+                                                                    true,
+                                                                    true,
+                                                                    false)),
+                                                                    (String
+                                                                    ((Ascii
+                                                                    (true,
+                                                                    true,
+                                                                    false,
+                                                                    false,
+                                                                    false,
+                                                                    true,
+                                                                    true,
+                                                                    false)),
+                                                                    (String
+                                                                    ((Ascii
+                                                                    (true,
+                                                                    false,
+                                                                    false,
+                                                                    false,
+                                                                    false,
+                                                                    true,
+                                                                    true,
+                                                                    false)),
+                                                                    (String
+                                                                    ((Ascii
+                                                                    (true,
+                                                                    true,
+                                                                    false,
+                                                                    false,
+                                                                    true,
+                                                                    true,
+                                                                    true,
+                                                                    false)),
+                                                                    (String
+                                                                    ((Ascii
+                                                                    (true,
+                                                                    false,
+                                                                    true,
+                                                                    false,
+                                                                    false,
+                                                                    true,
+                                                                    true,
+                                                                    false)),
+                                                                    EmptyString)))))))))))))
+                                                                    else 
+                                                                    (match l3 with
+                                                                    | [] ->
+                                                                    (match 
+                                                                    unhex h with
+                                                                    | Some name ->
+                                                                    let cfg =
+                                                                    { c_ignore =
+                                                                    ig0;
+                                                                    c_matches =
+                                                                    matches;
+                                                                    c_compose =
+                                                                    co0;
+                                                                    c_literal_dots =
+                                                                    dots0 }
+                                                                    in
+                                                                    (
+                                                                    match 
+                                                                    bind
+                                                                    (bind
+                                                                    (node_table
+                                                                    co0
+                                                                    nfiles)
+                                                                    (fun nt ->
+                                                                    bind
+                                                                    (class_table
+                                                                    cfiles)
+                                                                    (fun ct ->
+                                                                    Ok (nt,
+                                                                    ct))))
+                                                                    (fun pat ->
+                                                                    let (
+                                                                    nt, ct) =
+                                                                    pat
+                                                                    in
+                                                                    render_node
+                                                                    inc_fuel
+                                                                    run_fuel
+                                                                    cfg
+                                                                    (String
+                                                                    ((Ascii
+                                                                    (false,
+                                                                    false,
+                                                                    true,
+                                                                    true,
+                                                                    true,
+                                                                    true,
+                                                                    false,
+                                                                    false)),
+                                                                    (String
+                                                                    ((Ascii
+                                                                    (false,
+                                                                    true,
+                                                                    true,
+                                                                    true,
+                                                                    false,
+                                                                    false,
+                                                                    true,
+                                                                    false)),
+                                                                    (String
+                                                                    ((Ascii
+                                                                    (true,
+                                                                    true,
+                                                                    true,
+                                                                    true,
+                                                                    false,
+                                                                    false,
+                                                                    true,
+                                                                    false)),
+                                                                    (String
+                                                                    ((Ascii
+                                                                    (false,
+                                                                    false,
+                                                                    true,
+                                                                    false,
+                                                                    false,
+                                                                    false,
+                                                                    true,
+                                                                    false)),
+                                                                    (String
+                                                                    ((Ascii
+                                                                    (true,
+                                                                    false,
+                                                                    true,
+                                                                    false,
+                                                                    false,
+                                                                    false,
+                                                                    true,
+                                                                    false)),
+                                                                    (String
+                                                                    ((Ascii
+                                                                    (true,
+                                                                    true,
+                                                                    false,
+                                                                    false,
+                                                                    true,
+                                                                    false,
+                                                                    true,
+                                                                    false)),
+                                                                    (String
+                                                                    ((Ascii
+                                                                    (false,
+                                                                    true,
+                                                                    true,
+                                                                    true,
+                                                                    true,
+                                                                    true,
+                                                                    false,
+                                                                    false)),
+                                                                    EmptyString))))))))))))))
+                                                                    nt ct name) with
+                                                                    | Ok i ->
+                                                                    (match 
+                                                                    as_py_obj
+                                                                    (VMap
+                                                                    i.ni_params) with
+                                                                    | PyOk o ->
+                                                                    append
+                                                                    (String
+                                                                    ((Ascii
+                                                                    (true,
+                                                                    true,
+                                                                    true,
+                                                                    true,
+                                                                    false,
+                                                                    true,
+                                                                    true,
+                                                                    false)),
+                                                                    (String
+                                                                    ((Ascii
+                                                                    (true,
+                                                                    true,
+                                                                    false,
+                                                                    true,
+                                                                    false,
+                                                                    true,
+                                                                    true,
+                                                                    false)),
+                                                                    (String
+                                                                    ((Ascii
+                                                                    (false,
+                                                                    false,
+                                                                    false,
+                                                                    false,
+                                                                    false,
+                                                                    true,
+                                                                    false,
+                                                                    false)),
+                                                                    (String
+                                                                    ((Ascii
+                                                                    (false,
+                                                                    false,
+                                                                    false,
+                                                                    false,
+                                                                    true,
+                                                                    false,
+                                                                    true,
+                                                                    false)),
+                                                                    (String
+                                                                    ((Ascii
+                                                                    (false,
+                                                                    false,
+                                                                    false,
+                                                                    false,
+                                                                    false,
+                                                                    true,
+                                                                    false,
+                                                                    false)),
+                                                                    EmptyString))))))))))
+                                                                    (append
+                                                                    (canon_py
+                                                                    o)
+                                                                    (append
+                                                                    (String
+                                                                    ((Ascii
+                                                                    (false,
+                                                                    false,
+                                                                    false,
+                                                                    false,
+                                                                    false,
+                                                                    true,
+                                                                    false,
+                                                                    false)),
+                                                                    (String
+                                                                    ((Ascii
+                                                                    (true,
+                                                                    true,
+                                                                    false,
+                                                                    false,
+                                                                    false,
+                                                                    false,
+                                                                    true,
+                                                                    false)),
+                                                                    (String
+                                                                    ((Ascii
+                                                                    (false,
+                                                                    false,
+                                                                    false,
+                                                                    false,
+                                                                    false,
+                                                                    true,
+                                                                    false,
+                                                                    false)),
+                                                                    EmptyString))))))
+                                                                    (append
+                                                                    (canon_strs
+                                                                    i.ni_classes)
+                                                                    (append
+                                                                    (String
+                                                                    ((Ascii
+                                                                    (false,
+                                                                    false,
+                                                                    false,
+                                                                    false,
+                                                                    false,
+                                                                    true,
+                                                                    false,
+                                                                    false)),
+                                                                    (String
+                                                                    ((Ascii
+                                                                    (true,
+                                                                    false,
+                                                                    false,
+                                                                    false,
+                                                                    false,
+                                                                    false,
+                                                                    true,
+                                                                    false)),
+                                                                    (String
+                                                                    ((Ascii
+                                                                    (false,
+                                                                    false,
+                                                                    false,
+                                                                    false,
+                                                                    false,
+                                                                    true,
+                                                                    false,
+                                                                    false)),
+                                                                    EmptyString))))))
+                                                                    (canon_strs
+                                                                    i.ni_apps)))))
+                                                                    | PyTypeError ->
+                                                                    String
+                                                                    ((Ascii
+                                                                    (false,
+                                                                    true,
+                                                                    false,
+                                                                    false,
+                                                                    true,
+                                                                    true,
+                                                                    true,
+                                                                    false)),
+                                                                    (String
+                                                                    ((Ascii
+                                                                    (true,
+                                                                    false,
+                                                                    false,
+                                                                    false,
+                                                                    false,
+                                                                    true,
+                                                                    true,
+                                                                    false)),
+                                                                    (String
+                                                                    ((Ascii
+                                                                    (true,
+                                                                    false,
+                                                                    false,
+                                                                    true,
+                                                                    false,
+                                                                    true,
+                                                                    true,
+                                                                    false)),
+                                                                    (String
+                                                                    ((Ascii
+                                                                    (true,
+                                                                    true,
+                                                                    false,
+                                                                    false,
+                                                                    true,
+                                                                    true,
+                                                                    true,
+                                                                    false)),
+                                                                    (String
+                                                                    ((Ascii
+                                                                    (true,
+                                                                    false,
+                                                                    true,
+                                                                    false,
+                                                                    false,
+                                                                    true,
+                                                                    true,
+                                                                    false)),
+                                                                    (String
+                                                                    ((Ascii
+                                                                    (false,
+                                                                    false,
+                                                                    false,
+                                                                    false,
+                                                                    false,
+                                                                    true,
+                                                                    false,
+                                                                    false)),
+                                                                    (String
+                                                                    ((Ascii
+                                                                    (false,
+                                                                    false,
+                                                                    true,
+                                                                    false,
+                                                                    true,
+                                                                    false,
+                                                                    true,
+                                                                    false)),
+                                                                    (String
+                                                                    ((Ascii
+                                                                    (true,
+                                                                    false,
+                                                                    false,
+                                                                    true,
+                                                                    true,
+                                                                    true,
+                                                                    true,
+                                                                    false)),
+                                                                    (String
+                                                                    ((Ascii
+                                                                    (false,
+                                                                    false,
+                                                                    false,
+                                                                    false,
+                                                                    true,
+                                                                    true,
+                                                                    true,
+                                                                    false)),
+                                                                    (String
+                                                                    ((Ascii
+                                                                    (true,
+                                                                    false,
+                                                                    true,
+                                                                    false,
+                                                                    false,
+                                                                    true,
+                                                                    true,
+                                                                    false)),
+                                                                    (String
+                                                                    ((Ascii
+                                                                    (true,
+                                                                    false,
+                                                                    true,
+                                                                    false,
+                                                                    false,
+                                                                    false,
+                                                                    true,
+                                                                    false)),
+                                                                    (String
+                                                                    ((Ascii
+                                                                    (false,
+                                                                    true,
+                                                                    false,
+                                                                    false,
+                                                                    true,
+                                                                    true,
+                                                                    true,
+                                                                    false)),
+                                                                    (String
+                                                                    ((Ascii
+                                                                    (false,
+                                                                    true,
+                                                                    false,
+                                                                    false,
+                                                                    true,
+                                                                    true,
+                                                                    true,
+                                                                    false)),
+                                                                    (String
+                                                                    ((Ascii
+                                                                    (true,
+                                                                    true,
+                                                                    true,
+                                                                    true,
+                                                                    false,
+                                                                    true,
+                                                                    true,
+                                                                    false)),
+                                                                    (String
+                                                                    ((Ascii
+                                                                    (false,
+                                                                    true,
+                                                                    false,
+                                                                    false,
+                                                                    true,
+                                                                    true,
+                                                                    true,
+                                                                    false)),
+                                                                    EmptyString)))))))))))))))))))))))))))))
+                                                                    | PyPanic ->
+                                                                    String
+                                                                    ((Ascii
+                                                                    (false,
+                                                                    false,
+                                                                    false,
+                                                                    false,
+                                                                    true,
+                                                                    true,
+                                                                    true,
+                                                                    false)),
+                                                                    (String
+                                                                    ((Ascii
+                                                                    (true,
+                                                                    false,
+                                                                    false,
+                                                                    false,
+                                                                    false,
+                                                                    true,
+                                                                    true,
+                                                                    false)),
+                                                                    (String
+                                                                    ((Ascii
+                                                                    (false,
+                                                                    true,
+                                                                    true,
+                                                                    true,
+                                                                    false,
+                                                                    true,
+                                                                    true,
+                                                                    false)),
+                                                                    (String
+                                                                    ((Ascii
+                                                                    (true,
+                                                                    false,
+                                                                    false,
+                                                                    true,
+                                                                    false,
+                                                                    true,
+                                                                    true,
+                                                                    false)),
+                                                                    (String
+                                                                    ((Ascii
+                                                                    (true,
+                                                                    true,
+                                                                    false,
+                                                                    false,
+                                                                    false,
+                                                                    true,
+                                                                    true,
+                                                                    false)),
+                                                                    (String
+                                                                    ((Ascii
+                                                                    (false,
+                                                                    false,
+                                                                    false,
+                                                                    false,
+                                                                    false,
+                                                                    true,
+                                                                    false,
+                                                                    false)),
+                                                                    (String
+                                                                    ((Ascii
+                                                                    (false,
+                                                                    false,
+                                                                    false,
+                                                                    false,
+                                                                    true,
+                                                                    false,
+                                                                    true,
+                                                                    false)),
+                                                                    (String
+                                                                    ((Ascii
+                                                                    (true,
+                                                                    false,
+                                                                    false,
+                                                                    true,
+                                                                    true,
+                                                                    true,
+                                                                    true,
+                                                                    false)),
+                                                                    (String
+                                                                    ((Ascii
+                                                                    (false,
+                                                                    true,
+                                                                    true,
+                                                                    false,
+                                                                    true,
+                                                                    false,
+                                                                    true,
+                                                                    false)),
+                                                                    (String
+                                                                    ((Ascii
+                                                                    (true,
+                                                                    false,
+                                                                    false,
+                                                                    false,
+                                                                    false,
+                                                                    true,
+                                                                    true,
+                                                                    false)),
+                                                                    (String
+                                                                    ((Ascii
+                                                                    (false,
+                                                                    false,
+                                                                    true,
+                                                                    true,
+                                                                    false,
+                                                                    true,
+                                                                    true,
+                                                                    false)),
+                                                                    (String
+                                                                    ((Ascii
+                                                                    (true,
+                                                                    false,
+                                                                    true,
+                                                                    false,
+                                                                    true,
+                                                                    true,
+                                                                    true,
+                                                                    false)),
+                                                                    (String
+                                                                    ((Ascii
+                                                                    (true,
+                                                                    false,
+                                                                    true,
+                                                                    false,
+                                                                    false,
+                                                                    true,
+                                                                    true,
+                                                                    false)),
+                                                                    (String
+                                                                    ((Ascii
+                                                                    (false,
+                                                                    false,
+                                                                    true,
+                                                                    true,
+                                                                    false,
+                                                                    false,
+                                                                    true,
+                                                                    false)),
+                                                                    (String
+                                                                    ((Ascii
+                                                                    (true,
+                                                                    false,
+                                                                    false,
+                                                                    true,
+                                                                    false,
+                                                                    true,
+                                                                    true,
+                                                                    false)),
+                                                                    (String
+                                                                    ((Ascii
+                                                                    (true,
+                                                                    true,
+                                                                    false,
+                                                                    false,
+                                                                    true,
+                                                                    true,
+                                                                    true,
+                                                                    false)),
+                                                                    (String
+                                                                    ((Ascii
+                                                                    (false,
+                                                                    false,
+                                                                    true,
+                                                                    false,
+                                                                    true,
+                                                                    true,
+                                                                    true,
+                                                                    false)),
+                                                                    EmptyString))))))))))))))))))))))))))))))))))
+                                                                    | Err e ->
+                                                                    canon_res
+                                                                    (fun _ ->
+                                                                    EmptyString)
+                                                                    (Err e)
+                                                                    | Panic s0 ->
+                                                                    canon_res
+                                                                    (fun _ ->
+                                                                    EmptyString)
+                                                                    (Panic s0)
+                                                                    | OutOfFuel ->
+                                                                    canon_res
+                                                                    (fun _ ->
+                                                                    EmptyString)
+                                                                    OutOfFuel)
+                                                                    | None ->
+                                                                    String
+                                                                    ((Ascii
+                                                                    (false,
+                                                                    true,
+                                                                    false,
+                                                                    false,
+                                                                    false,
+                                                                    true,
+                                                                    true,
+                                                                    false)),
+                                                                    (String
+                                                                    ((Ascii
+                                                                    (true,
+                                                                    false,
+                                                                    false,
+                                                                    false,
+                                                                    false,
+                                                                    true,
+                                                                    true,
+                                                                    false)),
+                                                                    (String
+                                                                    ((Ascii
+                                                                    (false,
+                                                                    false,
+                                                                    true,
+                                                                    false,
+                                                                    false,
+                                                                    true,
+                                                                    true,
+                                                                    false)),
+                                                                    (String
+                                                                    ((Ascii
+                                                                    (true,
+                                                                    true,
+                                                                    false,
+                                                                    false,
+                                                                    false,
+                                                                    true,
+                                                                    true,
+                                                                    false)),
+                                                                    (String
+                                                                    ((Ascii
+                                                                    (true,
+                                                                    false,
+                                                                    false,
+                                                                    false,
+                                                                    false,
+                                                                    true,
+                                                                    true,
+                                                                    false)),
+                                                                    (String
+                                                                    ((Ascii
+                                                                    (true,
+                                                                    true,
+                                                                    false,
+                                                                    false,
+                                                                    true,
+                                                                    true,
+                                                                    true,
+                                                                    false)),
+                                                                    (String
+                                                                    ((Ascii
+                                                                    (true,
+                                                                    false,
+                                                                    true,
+                                                                    false,
+                                                                    false,
+                                                                    true,
+                                                                    true,
+                                                                    false)),
+                                                                    EmptyString))))))))))))))
+                                                                    | _ :: _ ->
+                                                                    String
+                                                                    ((Ascii
+                                                                    (false,
+                                                                    true,
+                                                                    false,
+                                                                    false,
+                                                                    false,
+                                                                    true,
+                                                                    true,
+                                                                    false)),
+                                                                    (String
+                                                                    ((Ascii
+                                                                    (true,
+                                                                    false,
+                                                                    false,
+                                                                    false,
+                                                                    false,
+                                                                    true,
+                                                                    true,
+                                                                    false)),
+                                                                    (String
+                                                                    ((Ascii
+                                                                    (false,
+                                                                    false,
+                                                                    true,
+                                                                    false,
+                                                                    false,
+                                                                    true,
+                                                                    true,
+                                                                    false)),
+                                                                    (String
+                                                                    ((Ascii
+                                                                    (true,
+                                                                    true,
+                                                                    false,
+                                                                    false,
+                                                                    false,
+                                                                    true,
+                                                                    true,
+                                                                    false)),
+                                                                    (String
+                                                                    ((Ascii
+                                                                    (true,
+                                                                    false,
+                                                                    false,
+                                                                    false,
+                                                                    false,
+                                                                    true,
+                                                                    true,
+                                                                    false)),
+                                                                    (String
+                                                                    ((Ascii
+                                                                    (true,
+                                                                    true,
+                                                                    false,
+                                                                    false,
+                                                                    true,
+                                                                    true,
+                                                                    true,
+                                                                    false)),
+                                                                    (String
+                                                                    ((Ascii
+                                                                    (true,
+                                                                    false,
+                                                                    true,
+                                                                    false,
+                                                                    false,
+                                                                    true,
+                                                                    true,
+                                                                    false)),
+                                                                    EmptyString))))))))))))))
+                                                                    else 
+                                                                    String
+                                                                    ((Ascii
+                                                                    (false,
+                                                                    true,
+                                                                    false,
+                                                                    false,
+                                                                    false,
+                                                                    true,
+                                                                    true,
+                                                                    false)),
+                                                                    (String
+                                                                    ((Ascii
+                                                                    (true,
+                                                                    false,
+                                                                    false,
+                                                                    false,
+                                                                    false,
+                                                                    true,
+                                                                    true,
+                                                                    false)),
+                                                                    (String
+                                                                    ((Ascii
+                                                                    (false,
+                                                                    false,
+                                                                    true,
+                                                                    false,
+                                                                    false,
+                                                                    true,
+                                                                    true,
+                                                                    false)),
+                                                                    (String
+                                                                    ((Ascii
+                                                                    (true,
+                                                                    true,
+                                                                    false,
+                                                                    false,
+                                                                    false,
+                                                                    true,
+                                                                    true,
+                                                                    false)),
+                                                                    (String
+                                                                    ((Ascii
+                                                                    (true,
+                                                                    false,
+                                                                    false,
+                                                                    false,
+                                                                    false,
+                                                                    true,
+                                                                    true,
+                                                                    false)),
+                                                                    (String
+                                                                    ((Ascii
+                                                                    (true,
+                                                                    true,
+                                                                    false,
+                                                                    false,
+                                                                    true,
+                                                                    true,
+                                                                    true,
+                                                                    false)),
+                                                                    (String
+                                                                    ((Ascii
+                                                                    (true,
+                                                                    false,
+                                                                    true,
+                                                                    false,
+                                                                    false,
+                                                                    true,
+                                                                    true,
+                                                                    false)),
+                                                                    EmptyString)))))))))))))
+                                                          else String ((Ascii
+                                                                 (false,
+                                                                 true, false,
+                                                                 false,
+                                                                 false, true,
+                                                                 true,
+                                                                 false)),
+                                                                 (String
+                                                                 ((Ascii
+                                                                 (true,
+                                                                 false,
+                                                                 false,
+                                                                 false,
+                                                                 false, true,
+                                                                 true,
+                                                                 false)),
+                                                                 (String
+                                                                 ((Ascii
+                                                                 (false,
+                                                                 false, true,
+                                                                 false,
+                                                                 false, true,
+                                                                 true,
+                                                                 false)),
+                                                                 (String
+                                                                 ((Ascii
+                                                                 (true, true,
+                                                                 false,
+                                                                 false,
+                                                                 false, true,
+                                                                 true,
+                                                                 false)),
+                                                                 (String
+                                                                 ((Ascii
+                                                                 (true,
+                                                                 false,
+                                                                 false,
+                                                                 false,
+                                                                 false, true,
+                                                                 true,
+                                                                 false)),
+                                                                 (String
+                                                                 ((Ascii
+                                                                 (true, true,
+                                                                 false,
+                                                                 false, true,
+                                                                 true, true,
+                                                                 false)),
+                                                                 (String
+                                                                 ((Ascii
+                                                                 (true,
+                                                                 false, true,
+                                                                 false,
+                                                                 false, true,
+                                                                 true,
+                                                                 false)),
+                                                                 EmptyString)))))))))))))
+                                           else String ((Ascii (false, true,
+                                                  false, false, false, true,
+                                                  true, false)), (String
+                                                  ((Ascii (true, false,
+                                                  false, false, false, true,
+                                                  true, false)), (String
+                                                  ((Ascii (false, false,
+                                                  true, false, false, true,
+                                                  true, false)), (String
+                                                  ((Ascii (true, true, false,
+                                                  false, false, true, true,
+                                                  false)), (String ((Ascii
+                                                  (true, false, false, false,
+                                                  false, true, true, false)),
+                                                  (String ((Ascii (true,
+                                                  true, false, false, true,
+                                                  true, true, false)),
+                                                  (String ((Ascii (true,
+                                                  false, true, false, false,
+                                                  true, true, false)),
+                                                  EmptyString)))))))))))))
+                                      else String ((Ascii (false, true,
+                                             false, false, false, true, true,
+                                             false)), (String ((Ascii (true,
+                                             false, false, false, false,
+                                             true, true, false)), (String
+                                             ((Ascii (false, false, true,
+                                             false, false, true, true,
+                                             false)), (String ((Ascii (true,
+                                             true, false, false, false, true,
+                                             true, false)), (String ((Ascii
+                                             (true, false, false, false,
+                                             false, true, true, false)),
+                                             (String ((Ascii (true, true,
+                                             false, false, true, true, true,
+                                             false)), (String ((Ascii (true,
+                                             false, true, false, false, true,
+                                             true, false)),
+                                             EmptyString))))))))))))))))
+                           | None ->
+                             String ((Ascii (false, true, false, false,
+                               false, true, true, false)), (String ((Ascii
+                               (true, false, false, false, false, true, true,
+                               false)), (String ((Ascii (false, false, true,
+                               false, false, true, true, false)), (String
+                               ((Ascii (true, true, false, false, false,
+                               true, true, false)), (String ((Ascii (true,
+                               false, false, false, false, true, true,
+                               false)), (String ((Ascii (true, true, false,
+                               false, true, true, true, false)), (String
+                               ((Ascii (true, false, true, false, false,
+                               true, true, false)), EmptyString))))))))))))))
+                        | None ->
+                          String ((Ascii (false, true, false, false, false,
+                            true, true, false)), (String ((Ascii (true,
+                            false, false, false, false, true, true, false)),
+                            (String ((Ascii (false, false, true, false,
+                            false, true, true, false)), (String ((Ascii
+                            (true, true, false, false, false, true, true,
+                            false)), (String ((Ascii (true, false, false,
+                            false, false, true, true, false)), (String
+                            ((Ascii (true, true, false, false, true, true,
+                            true, false)), (String ((Ascii (true, false,
+                            true, false, false, true, true, false)),
+                            EmptyString))))))))))))))
+                     | None ->
+                       String ((Ascii (false, true, false, false, false,
+                         true, true, false)), (String ((Ascii (true, false,
+                         false, false, false, true, true, false)), (String
+                         ((Ascii (false, false, true, false, false, true,
+                         true, false)), (String ((Ascii (true, true, false,
+                         false, false, true, true, false)), (String ((Ascii
+                         (true, false, false, false, false, true, true,
+                         false)), (String ((Ascii (true, true, false, false,
+                         true, true, true, false)), (String ((Ascii (true,
+                         false, true, false, false, true, true, false)),
+                         EmptyString))))))))))))))
+                  | None ->
+                    String ((Ascii (false, true, false, false, false, true,
+                      true, false)), (String ((Ascii (true, false, false,
+                      false, false, true, true, false)), (String ((Ascii
+                      (false, false, true, false, false, true, true, false)),
+                      (String ((Ascii (true, true, false, false, false, true,
+                      true, false)), (String ((Ascii (true, false, false,
+                      false, false, true, true, false)), (String ((Ascii
+                      (true, true, false, false, true, true, true, false)),
+                      (String ((Ascii (true, false, true, false, false, true,
+                      true, false)), EmptyString))))))))))))))
+               | None ->
+                 String ((Ascii (false, true, false, false, false, true,
+                   true, false)), (String ((Ascii (true, false, false, false,
+                   false, true, true, false)), (String ((Ascii (false, false,
+                   true, false, false, true, true, false)), (String ((Ascii
+                   (true, true, false, false, false, true, true, false)),
+                   (String ((Ascii (true, false, false, false, false, true,
+                   true, false)), (String ((Ascii (true, true, false, false,
+                   true, true, true, false)), (String ((Ascii (true, false,
+                   true, false, false, true, true, false)),
+                   EmptyString))))))))))))))
+            | None ->
+              String ((Ascii (false, true, false, false, false, true, true,
+                false)), (String ((Ascii (true, false, false, false, false,
+                true, true, false)), (String ((Ascii (false, false, true,
+                false, false, true, true, false)), (String ((Ascii (true,
+                true, false, false, false, true, true, false)), (String
+                ((Ascii (true, false, false, false, false, true, true,
+                false)), (String ((Ascii (true, true, false, false, true,
+                true, true, false)), (String ((Ascii (true, false, true,
+                false, false, true, true, false)), EmptyString))))))))))))))
+         | None ->
+           String ((Ascii (false, true, false, false, false, true, true,
+             false)), (String ((Ascii (true, false, false, false, false,
+             true, true, false)), (String ((Ascii (false, false, true, false,
+             false, true, true, false)), (String ((Ascii (true, true, false,
+             false, false, true, true, false)), (String ((Ascii (true, false,
+             false, false, false, true, true, false)), (String ((Ascii (true,
+             true, false, false, true, true, true, false)), (String ((Ascii
+             (true, false, true, false, false, true, true, false)),
+             EmptyString))))))))))))))))
+
+(** val is_pynode_line : string list -> bool **)
+
+let is_pynode_line ts =
+  match rev0 ts with
+  | [] -> false
+  | _ :: l ->
+    (match l with
+     | [] -> false
+     | op :: _ ->
+       eqb1 op (String ((Ascii (false, false, false, false, true, true, true,
+         false)), (String ((Ascii (true, false, false, true, true, true,
+         true, false)), (String ((Ascii (false, true, true, true, false,
+         true, true, false)), (String ((Ascii (true, true, true, true, false,
+         true, true, false)), (String ((Ascii (false, false, true, false,
+         false, true, true, false)), (String ((Ascii (true, false, true,
+         false, false, true, true, false)), EmptyString)))))))))))))
+
+(** val run_line6 : string -> string **)
+
+let run_line6 line =
+  match words line with
+  | [] ->
+    String ((Ascii (false, true, false, false, false, true, true, false)),
+      (String ((Ascii (true, false, false, false, false, true, true, false)),
+      (String ((Ascii (false, false, true, false, false, true, true, false)),
+      (String ((Ascii (false, false, true, true, false, true, true, false)),
+      (String ((Ascii (true, false, false, true, false, true, true, false)),
+      (String ((Ascii (false, true, true, true, false, true, true, false)),
+      (String ((Ascii (true, false, true, false, false, true, true, false)),
+      EmptyString)))))))))))))
+  | id :: l ->
+    (match l with
+     | [] ->
+       String ((Ascii (false, true, false, false, false, true, true, false)),
+         (String ((Ascii (true, false, false, false, false, true, true,
+         false)), (String ((Ascii (false, false, true, false, false, true,
+         true, false)), (String ((Ascii (false, false, true, true, false,
+         true, true, false)), (String ((Ascii (true, false, false, true,
+         false, true, true, false)), (String ((Ascii (false, true, true,
+         true, false, true, true, false)), (String ((Ascii (true, false,
+         true, false, false, true, true, false)), EmptyString)))))))))))))
+     | mode :: ts ->
+       if (&&)
+            (eqb1 mode (String ((Ascii (true, false, false, true, false,
+              true, true, false)), (String ((Ascii (false, true, true, true,
+              false, true, true, false)), (String ((Ascii (false, true, true,
+              false, true, true, true, false)), EmptyString)))))))
+            (is_pynode_line ts)
+       then append id (append tab (run_pynode ts))
+       else run_line5 line)
